@@ -12,1227 +12,2629 @@ Definition show_fres (r : fres) : string :=
   end.
 Definition check (rs : list rune) : string := digest (show_fres (format_res rs)).
 Definition full (rs : list rune) : string := show_fres (format_res rs).
-Eval vm_compute in ("<<<M1778>>>" ++ check (runes_of_ascii "
+Eval vm_compute in ("<<<M4325>>>" ++ check (runes_of_ascii "  // c
+
+	root 
+packet pack
+	{
+    repeat	char[
+	007 ] MetaDataX `say ""hi""` , char[]x_y_z
+    @lengthOf(
+u128 )
+
+,
+
+    @tag(10
+
+)	match falsey
+
+as
+string_
+    {	""packet""
+	:
+
+    u 
+,
+42 
+:	options1 ,""CRC32"" :
+
+trueish
+
+    ,	0123456789
+:
+    Packet ,
+
+    """ ++ [128512]%N ++ runes_of_ascii """
+:trueish
+
+4294967296 : // a // b
+    matchKey , }
+	,
+}
+
+    packet
+
+roots
+{  repeat f32a
+{ 	 // c
+  match
+
+trueish 	 // c
+  as 
+    // a // b
+    // trailing space 
+		x 
+    /// triple
+  // trailing space 
+    {// trailing space 
+  	[
+""{,}""
+    ,
+
+    """ ++ [28040; 24687]%N ++ runes_of_ascii """ ,0 ,
+
+""abc""
+,""a\""b""
+,007
+
+] :
+Foo
+} 	 /// triple
+
+	,}	// c
+    	,
+@lengthOf(Z9_)  @tag(  7	) chars uint8x
+
+`it's`
+	, 
+@calculatedFrom( ""a	b"" 
+)	crc  { match
+    // c
+// " ++ [128512]%N ++ runes_of_ascii " emoji
+
+trueish 
+as // packet A { u8 x, }
+    metadata 
+{ 65535 :
+
+    string_
+    """ ++ [28040; 24687]%N ++ runes_of_ascii """
+: Logon
+,} ,char[
+    007	// " ++ [27880; 37322]%N ++ runes_of_ascii "
+	]
+falsey
+`100% of %d` ,
+u128
+
+@calculatedFrom(  ""{,}"" 
+)
+
+,
+	}  // c
+  ,
+
+match
+
+// packet A { u8 x, }
+// 50% %s
+
+a1 as
+    As{
+""" ++ [233]%N ++ runes_of_ascii "t" ++ [233]%N ++ runes_of_ascii """
+: asx
+
+255
+
+:	As""// no comment""	:
+	string_ 
+//
+    	//x
+,
+	0123456789
+:
+Z9_	, 65535
+
+    : // @lengthOf(
+	A 4294967296: options1
+	,
+	}
+	,
+    repeat  MetaDataX
+
+,
+Logon
+
+,	@calculatedFrom( ""a\\""
+) 
+        // `tick` ""quote"" 'q'
+  options1 ,@lengthOf(
+T)roots	, Foo
+
+@lengthOf(  Pad
+	) , 	 // " ++ [27880; 37322]%N ++ runes_of_ascii "
+  	char[65535]len
+
+, }
+root// " ++ [27880; 37322]%N ++ runes_of_ascii "
+
+	packet
+
+repeatCount
+
+    {	// trailing space 
+@calculatedFrom( ""CRC32"" )
+    @tag(	7
+)
+	@calculatedFrom(
+""a\\""
+)
+u128
+{ metadata  @calculatedFrom(
+
+""// no comment""
+) `two words`
+
+    ,} ,@rightPad
+    ( )
+    repeat char[
+
+0123456789	//
+
+  ]
+	MetaDataX
+    ,
+@calculatedFrom(
+
+""x y"" )stringy
+
+    @lengthOf( metadata
+
+    )	,Foo
+options1 	 // @lengthOf(
+,
+	@leftPad ('\x00' 
+    // packet A { u8 x, }
+	// " ++ [128512]%N ++ runes_of_ascii " emoji
+	)@rightPad //	t
+()	i32
+
+T , zchar[
+    007  ]
+a1
+
+    `" ++ [28040; 24687; 31867; 22411]%N ++ runes_of_ascii "`,  @lengthOf(uint8x )
+MetaDataX	@calculatedFrom( 
+""\" ++ [233]%N ++ runes_of_ascii """ )
+`line1
+line2` , @calculatedFrom( 
+""a	b""
+	/// triple
+) string  matchKey  `doc` ,	@lengthOf(
+    As 
+)// @lengthOf(
+@calculatedFrom(  ""// no comment"" ) @tag(
+10  )string
+    Foo  ,	repeat
+
+lengthOf  `// not a comment`
+,} 
+      /// triple")).
+Eval vm_compute in ("<<<M3451>>>" ++ check (runes_of_ascii "options { // c1a
+  // c1b
+LittleEndian // c2
+= true // c4a
+  // c4b
+; // c5
+StringPrefixLenType // c6a
+  // c6b
+=
+    // c7
+u8 // c8
+; // c9a
+  // c9b
+FixedStringPadFromLeft
+    // c10
+= // c11a
+  // c11b
+false // c12a
+  // c12b
+; // c13
+FixedStringPadChar // c14a
+  // c14b
+= // c15
+'0' // c16a
+  // c16b
+; // c17
+}
+    // c18
+packet
+    // c19
+Order { repeat // c22
+string // c23
+Px // c24
+, // c25a
+  // c25b
+repeat // c26a
+  // c26b
+char[
+    // c27
+2 // c28
+] // c29
+Qty
+    // c30
+, string
+    // c32
+Tail
+    // c33
+, // c34
+char[] // c35
+OrderId // c36
+,
+    // c37
+int8 // c38
+tag7 , // c40
+int64 // c41a
+  // c41b
+Flags
+    // c42
+, // c43
+} // c44
+packet Party // c46a
+  // c46b
+{ // c47a
+  // c47b
+Order // c48a
+  // c48b
+, // c49
+f32
+    // c50
+lastPx , f32
+    // c53
+Note , // c55a
+  // c55b
+string x
+    // c57
+, } // c59
+packet Logon
+    // c61
+{ uint8 OrderId // c64a
+  // c64b
+,
+    // c65
+string // c66
+msgKind // c67a
+  // c67b
+, // c68
+int32 // c69
+lastPx , // c71
+} // c72a
+  // c72b
+packet // c73
+Ack
+    // c74
+{
+    // c75
+}
+    // c76
+packet // c77a
+  // c77b
+Cancel { // c79
+repeat // c80a
+  // c80b
+char[ // c81
+5 ] // c83a
+  // c83b
+Note
+    // c84
+, // c85a
+  // c85b
+repeat // c86a
+  // c86b
+i32 // c87
+x // c88a
+  // c88b
+, Ack ,
+    // c91
+repeat // c92
+InF16 // c93
+{ repeat // c95
+i8 sym , } // c99a
+  // c99b
+, // c100a
+  // c100b
+char[
+    // c101
+1 // c102a
+  // c102b
+] Acct // c104
+,
+    // c105
+} // c106a
+  // c106b
+root
+    // c107
+packet // c108
+Fill { // c110
+i32 // c111
+price
+    // c112
+, @leftPad ( // c115
+' ' // c116a
+  // c116b
+)
+    // c117
+char[ 8 // c119
+] msgKind // c121a
+  // c121b
+,
+    // c122
+char[] Acct
+    // c124
+, // c125a
+  // c125b
+char[] // c126
+Note , // c128
+uint64 // c129
+venue // c130a
+  // c130b
+, // c131a
+  // c131b
+} // c132
+")).
+Eval vm_compute in ("<<<M934>>>" ++ check (runes_of_ascii "
+packet	_x
+{} options {
+repeatCount=	""" ++ [28040; 24687]%N ++ runes_of_ascii """ ; options1= 10 ; }
+    options { repeatCount = true
+    ; lengthOf
+= ""\n"" f32a=
+false ; Header =false ; x_y_z = //x
+7;
+// " ++ [27880; 37322]%N ++ runes_of_ascii "
+// @lengthOf(
+} root packet
+    // c
+    zchar{ A @calculatedFrom( ""1""
+    // packet A { u8 x, }
+    ) ,
+    repeat packetx// " ++ [128512]%N ++ runes_of_ascii " emoji
+{ match  Packet	as leftPad	{ ""{,}""
+// @lengthOf(
+//x
+: repeatCount [""{,}"" , ""`tick`"" , 00
+    ,""CRC32""  , ""packet"" ] : rootA
+    , ""CRC32""	:
+chars,
+[ ""x y""] :
+    leftPad ,[7, 007 ,
+0123456789,
+    ""a\""b"" , 007 , // trailing space 
+""\" ++ [233]%N ++ runes_of_ascii """ ,4294967296] :u },u64 //
+rootA,
+}  ,	@lengthOf(tag )
+repeat
+char[]	tag
+, u @calculatedFrom(
+"""" )
+,
+    u32 zchar  `" ++ [233]%N ++ runes_of_ascii "` ,
+match
+    // " ++ [27880; 37322]%N ++ runes_of_ascii "
+    Header // @lengthOf(
+as msg_type {"""" : calculatedFrom
+,	0123456789 :  chars,
+    //x
+    42 :
+//x
+// " ++ [27880; 37322]%N ++ runes_of_ascii "
+uint8x
+    ,255 :T [
+""CRC32"" ,
+    //
+    ""packet"" // 50% %s
+, ""\" ++ [233]%N ++ runes_of_ascii """ ,10
+    , 00 ] :
+x // `tick` ""quote"" 'q'
+, } ,  uint64
+    MetaDataX @lengthOf( u) , lengthOf msg_type ,Pad{
+    u128 { match
+    // a // b
+    options1 as zchar{ 42
+// " ++ [128512]%N ++ runes_of_ascii " emoji
+//	t
+:
+roots	, } ,match u128
+as
+    x_y_z {
+""a	b""
+// a // b
+// c
+: u
+    ,
+[ 007 // trailing space 
+,
+    007, """ ++ [233]%N ++ runes_of_ascii "t" ++ [233]%N ++ runes_of_ascii """ //x
+] :
+As ,
+""""
+    :
+    crc ""1"" :  _x
+// trailing space 
+//	t
+[ //x
+""" ++ [28040; 24687]%N ++ runes_of_ascii """, ""a	b""
+,
+65535 , 1 , ""`tick`""
+    //x
+    ,007] :  As
+,0123456789
+    :
+falsey
+,} , f64
+Foo `it's` , f32 rootA , } , } //x
+, }
+    root packet BodyLength { repeat metadata {f32a
+    //x
+    matchKey
+    , string_  zchar, } , }
+")).
+Eval vm_compute in ("<<<M198>>>" ++ check (runes_of_ascii "packet stringy { repeat	f32a o`" ++ [28040; 24687; 31867; 22411]%N ++ runes_of_ascii "`
+    , @lengthOf( f32a) /// triple
+char[
+    42 ] uint8x ,
+@tag( 42// trailing space 
+)
+    float @lengthOf( MetaDataX ),
+    string
+    T	,
+    match
+_x as
+leftPad {
+0123456789  : stringy, }
+    ,
+@leftPad ( )
+    repeat
+uint8x { string_{ char[	255]
+a1 @calculatedFrom(
+    // " ++ [27880; 37322]%N ++ runes_of_ascii "
+    ""abc"" ) , metadata
+@lengthOf( asx
+    ) // packet A { u8 x, }
+,}
+//	t
+// " ++ [27880; 37322]%N ++ runes_of_ascii "
+,
+    repeat
+    falsey , Logon {As,
+    repeat char[] u , }, }  , @leftPad (' ' // a // b
+)	char[10
+] charz @lengthOf(float
+    )
+    // 50% %s
+    ,@calculatedFrom( """ ++ [233]%N ++ runes_of_ascii "t" ++ [233]%N ++ runes_of_ascii """)
+i64 trueish `" ++ [28040; 24687; 31867; 22411]%N ++ runes_of_ascii "` // `tick` ""quote"" 'q'
+,
+}options
+// c
+// a // b
+{ options1 =  7 ; u =
+""""
+    ;
+} root packet
+Packet {
+char As `` ,
+    repeat leftPad //x
+{match
+    x_y_z
+    as x_y_z	{	""abc"" : f32a
+    [
+    1
+    //x
+    ,42 ]
+:	rootA
+, 7 : pack	,
+    ""abc""
+    : _x
+""1""  :	asx, ""packet"" :int// trailing space 
+}
+, }// a // b
+, @calculatedFrom( ""\n"" )repeat
+    f64 u8x
+, @lengthOf(
+    zchar )
+    o,
+    pack @lengthOf(
+falsey ) `two words` , zchar[ 1]asx @lengthOf( uint8x)
+    , @calculatedFrom( ""\n""
+// c
+// 50% %s
+)
+    char[ 42 ] // a // b
+u @calculatedFrom(""packet"" )
+    , match // " ++ [27880; 37322]%N ++ runes_of_ascii "
+rootA as i8i8{ 00
+// `tick` ""quote"" 'q'
+// packet A { u8 x, }
+: A ,	0 : o 0123456789
+    :
+len	,
+    65535 : zchar
+    } ,
+}
+//
+")).
+Eval vm_compute in ("<<<M480>>>" ++ check (runes_of_ascii "root packet // `tick` ""quote"" 'q'
+Packet
+// `tick` ""quote"" 'q'
+// `tick` ""quote"" 'q'
+{ char i64_,match
+crc
+    as
+trueish
+{007
+    :pack  ,[""a\\"" , 255 // a // b
+] :
+a1 , // packet A { u8 x, }
+} ,MetaDataX{
+char[ 1
+]
+    Z9_ `100% of %d` ,
+    } ,	@calculatedFrom( ""a	b"" ) @tag( 3 // trailing space 
+)@tag(42) match stringy  as calculatedFrom
+    //	t
+    { """ ++ [233]%N ++ runes_of_ascii "t" ++ [233]%N ++ runes_of_ascii """
+:
+Z9_ , ""\n"":
+    uint8x ,[""x y"",
+    ""packet"", ""it's""]: repeatCount
+    }
+, @tag(
+65535 )	int16 x `doc` , @leftPad ( '0' )char[]
+options1
+    , // 50% %s
+match len
+as // a // b
+As	{ [ ""x y""
+    , 00 , // " ++ [128512]%N ++ runes_of_ascii " emoji
+""it's""
+    ,
+    ""1"" , // @lengthOf(
+10	, ""`tick`""
+    , ""// no comment""] :
+crc	,
+    3:
+T,} ,}options{ calculatedFrom = f64 calculatedFrom= '\x00'
+; zchar = f32
+;
+    } packet lengthOf  {i8
+leftPad
+    ,i8 uint8x @calculatedFrom(
+    ""packet"" ) `100% of %d` ,
+@calculatedFrom("""" )@tag( 007 )char[ 10
+]
+    T // @lengthOf(
+@calculatedFrom(	""""
+) , u8x
+    {// " ++ [128512]%N ++ runes_of_ascii " emoji
+zchar
+    // 50% %s
+    @lengthOf( u)  `100% of %d`	,	}
+, float // trailing space 
+`" ++ [233]%N ++ runes_of_ascii "`,
+i64 packetx  , @lengthOf( BodyLength)	string calculatedFrom
+    , repeat
+    zchar[
+00 //
+] roots, }packet
+    T // packet A { u8 x, }
+{ }
+//x
+")).
+Eval vm_compute in ("<<<M722>>>" ++ check (runes_of_ascii "// `tick` ""quote"" 'q'
+root packet Z9_{ char[ 1 ] x_y_z
+    @lengthOf( body) , i32 o
+, repeat
+    falsey u128 `it's`
+, // `tick` ""quote"" 'q'
+uint32  As  `` , repeat i8	i64_`100% of %d`, @calculatedFrom(
+""a\""b""
+)repeat float
+    ,@rightPad ( // `tick` ""quote"" 'q'
+'0'
+)char[]u
+`it's` ,
+//
+//x
+u8x@calculatedFrom( ""x y"" ) `doc` // c
+, //	t
+int8
+    stringy	`tab	here` , } packet calculatedFrom {
+    f64  u128 @lengthOf(
+    len ) ,
+    } packet As  { float64 calculatedFrom `two words`
+    ,  match repeatCount // packet A { u8 x, }
+as // @lengthOf(
+chars { """" :
+charz	, } ,	repeat // 50% %s
+trueish
+{ u8 Z9_ ,
+repeat
+body,},
+int float ,@leftPad (
+)tag {	u16 string_
+@calculatedFrom( ""`tick`"")`
+` ,
+zchar[007 ] x @calculatedFrom(""1""
+//
+// " ++ [128512]%N ++ runes_of_ascii " emoji
+)`// not a comment`,
+    }
+    ,
+A roots ,@tag(
+4294967296 ) match msg_type	as  A{ 007
+: msg_type  , /// triple
+[
+42
+    // a // b
+    , ""{,}""]  : x_y_z, 255
+    //	t
+    :  f32a // `tick` ""quote"" 'q'
+,
+[0123456789 ,	""1"" ] :
+    T
+,
+} , @tag(0 ) o packetx
+`" ++ [28040; 24687; 31867; 22411]%N ++ runes_of_ascii "`,
+pack  int
+    `two words`
+    //	t
+    ,// trailing space 
+@rightPad ( ' '
+) i64_  @lengthOf( Foo ), }")).
+Eval vm_compute in ("<<<M771>>>" ++ check (runes_of_ascii "packet Z9_{  @tag( 007
+) @tag( 007 ) @lengthOf( trueish
+) char[]
+i8i8 `{ , }` , } MetaData trueish
+    {  char[] metadata ,
+char[
+    0123456789]
+uint8x , //
+} packet Packet/// triple
+{ uint16 float
+@lengthOf(
+    Z9_
+) `" ++ [28040; 24687; 31867; 22411]%N ++ runes_of_ascii "`
+    ,
+@calculatedFrom( ""// no comment"" )
+// a // b
+//	t
+crc,uint8x `" ++ [233]%N ++ runes_of_ascii "`
+, uint16 packetx , @leftPad
+    (
+) repeat rootA
+{
+repeat
+    // `tick` ""quote"" 'q'
+    As options1	, } ,match x as tag {1
+// 50% %s
+//
+:
+// " ++ [128512]%N ++ runes_of_ascii " emoji
+// 50% %s
+T
+// c
+// 50% %s
+,
+""abc"" : tag""\n""
+    // @lengthOf(
+    :
+/// triple
+//x
+tag ,  65535 :	u ,
+} // trailing space 
+, match
+    // trailing space 
+    Pad as
+Foo // `tick` ""quote"" 'q'
+{ ""it's"":
+T , } ,metadata,@lengthOf(rootA )  @rightPad ('\x00' )
+    // packet A { u8 x, }
+    match i64_	as  stringy { """ ++ [233]%N ++ runes_of_ascii "t" ++ [233]%N ++ runes_of_ascii """ : crc
+,
+00 : trueish 0 :repeatCount
+    ,
+3
+    :
+falsey , """ ++ [28040; 24687]%N ++ runes_of_ascii """ : lengthOf  [ """"// `tick` ""quote"" 'q'
+, 1 ]
+    : lengthOf , } ,
+} MetaData A {
+    chars MetaDataX ,
+    char[ 7 ] x_y_z,
+f32 u `crlf
+line`
+,
+int64 packetx`say ""hi""`
+, } MetaData
+Foo { i64 lengthOf `crlf
+line`, }
+")).
+Eval vm_compute in ("<<<M1344>>>" ++ check (runes_of_ascii "packet msg_type{} packet // @lengthOf(
+tag /// triple
+{
+@tag( 1 ) @tag( 7
+    )
+trueish
+@calculatedFrom(
+    ""{,}"" )`a\` ,@calculatedFrom(""\n"") string BodyLength
+, @lengthOf(
+x) @calculatedFrom(
+""abc"" )
+@tag(
+3 // @lengthOf(
+) char[0123456789 ] a1 @calculatedFrom( ""\n"" ) ,  @leftPad
+    ( // packet A { u8 x, }
+'\x00' )
+repeat i16 repeatCount, match int	as u{
+3 :
+    x	[ 3 ,""`tick`"" , ""`tick`""	]  : a1 ,
+    [10 , 4294967296  ]
+: string_,} , string_
+    x ,u64// trailing space 
+matchKey`line1
+line2`, repeat len {int Foo ,
+zchar[ 007 ] BodyLength`// not a comment` ,repeat packetx crc
+    `tab	here` , } ,}root packet /// triple
+chars
+{@tag(
+    00	) repeat uint64 i8i8
+,zchar[ 7 ] matchKey`line1
+line2`
+, Z9_ @lengthOf( options1 )  , @calculatedFrom(
+""{,}""
+) int @calculatedFrom( //
+""it's""	), @rightPad ( ) @leftPad
+    ( ' ' ) // " ++ [27880; 37322]%N ++ runes_of_ascii "
+@lengthOf(crc)
+    // " ++ [27880; 37322]%N ++ runes_of_ascii "
+    u128	stringy , // 50% %s
+@lengthOf( //	t
+options1
+)uint32 options1
+`// not a comment`
+,repeat uint8x  zchar`" ++ [233]%N ++ runes_of_ascii "` , // " ++ [128512]%N ++ runes_of_ascii " emoji
+}
+")).
+Eval vm_compute in ("<<<M404>>>" ++ check (runes_of_ascii "  packet	Packet  { @lengthOf(	Foo) match  Logon
+    as
+// @lengthOf(
+// trailing space 
+string_ { [ ""`tick`""
+, ""// no comment""
+, //
+0
+    , 3 , 4294967296
+] : trueish , """ ++ [233]%N ++ runes_of_ascii "t" ++ [233]%N ++ runes_of_ascii """ : packetx 10 : float , """":x_y_z ,
+""a	b"" :
+    o , 10
+    :calculatedFrom } ,// 50% %s
+metadata { matchKey @lengthOf( // @lengthOf(
+Pad ),zchar[ 255 ] x``
+    ,
+x @lengthOf( metadata
+    ) , } , repeat msg_type rootA,
+repeat// " ++ [27880; 37322]%N ++ runes_of_ascii "
+Header
+,char[ 7
+]len// `tick` ""quote"" 'q'
+@lengthOf( packetx
+) `u8 x,` , @lengthOf(	falsey ) @lengthOf(// trailing space 
+options1 ) repeat u16 Foo , repeat int32 msg_type , match lengthOf
+    as Logon {
+    ""1"" : tag ,} // @lengthOf(
+, } MetaData u128
+    //	t
+    {uint8x MetaDataX,} packet falsey { uint16
+A @calculatedFrom( ""// no comment"" )//	t
+, @leftPad
+    ( ' ')
+    // `tick` ""quote"" 'q'
+    trueish //
+, @tag( 7)
+repeat string
+msg_type,repeat string	falsey
+    `line1
+line2` , }
+    packet lengthOf { } // `tick` ""quote"" 'q'")).
+Eval vm_compute in ("<<<M699>>>" ++ check (runes_of_ascii "packet repeatCount {
+    match
+Header
+as
+//
+// 50% %s
+options1 {	[ 0 ,
+    0123456789]:BodyLength [	00 ]	:
+    o """ ++ [28040; 24687]%N ++ runes_of_ascii """: rootA //
+,
+    ""\" ++ [233]%N ++ runes_of_ascii """ :// packet A { u8 x, }
+Packet
+    , """ ++ [128512]%N ++ runes_of_ascii """:trueish , [
+    """ ++ [128512]%N ++ runes_of_ascii """] :
+    body	,
+// trailing space 
+/// triple
+}  , } packet a1	{ // a // b
+@lengthOf( asx) @lengthOf(u128 ) match u8x as f32a {
+    42
+: Z9_ // 50% %s
+, }  , i64 rootA ,  @tag(0)
+// c
+// " ++ [128512]%N ++ runes_of_ascii " emoji
+A ,@calculatedFrom( ""a\\"" ) // " ++ [128512]%N ++ runes_of_ascii " emoji
+@leftPad
+    (  )
+@tag(// packet A { u8 x, }
+255)
+// `tick` ""quote"" 'q'
+//x
+u64
+matchKey
+    @calculatedFrom( ""packet""
+    // " ++ [27880; 37322]%N ++ runes_of_ascii "
+    ) //	t
+,
+repeat float32 falsey , match int // @lengthOf(
+as crc{ 007 :
+    As ,
+[ 00 ,0123456789
+//
+//	t
+] : roots,
+    10
+:
+BodyLength
+, [ 0123456789
+    //	t
+    ,""abc"",42 ] :
+    len	,}	,
+repeat	msg_type {
+char[ 007 ]
+// packet A { u8 x, }
+// " ++ [128512]%N ++ runes_of_ascii " emoji
+u8x @lengthOf(	Packet // 50% %s
+) `` ,
+    }, } // packet A { u8 x, }")).
+Eval vm_compute in ("<<<M840>>>" ++ check (runes_of_ascii "root
+packet repeatCount
+{string chars
+    // `tick` ""quote"" 'q'
+    , } options	{ matchKey =	""a	b"";}root
+packet repeatCount{ @tag( 0 ) char[ 00 ] T  `" ++ [233]%N ++ runes_of_ascii "` ,
+x @lengthOf(
+chars )
+, @tag(
+// a // b
+// " ++ [27880; 37322]%N ++ runes_of_ascii "
+007)A @calculatedFrom( ""{,}"" ) `line1
+line2` , // @lengthOf(
+@tag( 65535//
+)
+u,@lengthOf( f32a
+)
+char[]
+    A `{ , }` , i64 u@lengthOf(
+zchar
+    //x
+    ) , lengthOf {
+string	chars
+@lengthOf( Foo )
+    `100% of %d`,
+repeat
+i8i8{
+    rootA
+    len	`crlf
+line` , T  @lengthOf(
+T
+) ,// @lengthOf(
+} , string msg_type @calculatedFrom(
+""a	b"" ) , } ,	x_y_z{  char[] uint8x @calculatedFrom(""a\""b""	)  `it's` , x_y_z @lengthOf(
+lengthOf	) , match
+    //	t
+    chars	as  Packet	{[""1"", 007
+] :
+    Header,
+    255 :MetaDataX // " ++ [128512]%N ++ runes_of_ascii " emoji
+,
+    007
+: pack , ""abc"" : As //	t
+, } ,zchar[3]
+tag
+    @calculatedFrom(
+    ""// no comment"" ) `two words` // a // b
+,},}
+")).
+Eval vm_compute in ("<<<M1168>>>" ++ check (runes_of_ascii "packet metadata  {
+    // 50% %s
+    i64_  options1
+    ,i64 x `" ++ [233]%N ++ runes_of_ascii "` , zchar[ 0 ]body , }packet
+    charz// a // b
+{
+    repeat float64 options1`" ++ [233]%N ++ runes_of_ascii "` , @lengthOf(
+Z9_ )
+// c
+// @lengthOf(
+As ,  repeat uint8	Foo
+, u32 string_
+,
+i32 calculatedFrom @lengthOf( msg_type
+)
+    // @lengthOf(
+    `two words`
+    ,repeat Header charz	`// not a comment`, @calculatedFrom(	""x y"" )
+//x
+// trailing space 
+char[
+0123456789	] stringy@calculatedFrom(""x y"" )
+    , repeat
+lengthOf o
+`a\` , match u
+as
+A
+    // @lengthOf(
+    { ""`tick`"" : // 50% %s
+uint8x , ""abc"" : charz , 7:
+    crc  ,
+// @lengthOf(
+// packet A { u8 x, }
+""`tick`"" : asx , ""a\\"" :
+// `tick` ""quote"" 'q'
+/// triple
+i64_} ,
+Header calculatedFrom
+    `" ++ [233]%N ++ runes_of_ascii "`
+    ,
+// c
+//
+} packet a1{// trailing space 
+} MetaData
+u128{ matchKey falsey `line1
+line2` , }
+")).
+Eval vm_compute in ("<<<M171>>>" ++ check (runes_of_ascii "packet
+Z9_ { u32
+pack `crlf
+line` ,
+    /// triple
+    @lengthOf(len) u128 {match
+    x_y_z as  Logon  { 7 : pack ,1
+: int 4294967296// " ++ [27880; 37322]%N ++ runes_of_ascii "
+: rootA, 1 :
+f32a,
+[
+    """" , // 50% %s
+42	, ""\n"" ,
+// " ++ [128512]%N ++ runes_of_ascii " emoji
+// packet A { u8 x, }
+7
+, // c
+0 ,
+""// no comment"", 4294967296 ,
+""// no comment""
+] :
+    matchKey  ,
+},
+    // " ++ [27880; 37322]%N ++ runes_of_ascii "
+    match float
+as trueish // a // b
+{007 : packetx, 65535	: repeatCount} , repeat
+    // @lengthOf(
+    roots lengthOf
+, repeat
+i8 string_, } ,  i64
+    leftPad @lengthOf( msg_type ) , // a // b
+@tag(
+    // c
+    7 )zchar[ 7] f32a //	t
+@calculatedFrom(""\n"" ) , string falsey ,
+    // packet A { u8 x, }
+    repeat leftPad{ match matchKey // a // b
+as	repeatCount { ""\n"" :metadata  ,""x y""
+:Logon
+// " ++ [128512]%N ++ runes_of_ascii " emoji
+// " ++ [27880; 37322]%N ++ runes_of_ascii "
+, }
+    , }
+    , /// triple
+}
+")).
+Eval vm_compute in ("<<<M97>>>" ++ check (runes_of_ascii "root
+packet	uint8x {// " ++ [27880; 37322]%N ++ runes_of_ascii "
+MetaDataX// " ++ [27880; 37322]%N ++ runes_of_ascii "
+`doc`,
+char
+A  `line1
+line2` , match BodyLength as roots
+    {
+    [ ""// no comment"" , 4294967296,
+""" ++ [128512]%N ++ runes_of_ascii """
+] : falsey
+, // @lengthOf(
+""" ++ [233]%N ++ runes_of_ascii "t" ++ [233]%N ++ runes_of_ascii """
+:o
+[  7	] : o, 65535 :int ,
+    3 :	int, 65535
+:
+    Foo , // packet A { u8 x, }
+} , @lengthOf( MetaDataX
+// c
+// @lengthOf(
+)
+    repeat Packet  chars	, @calculatedFrom( ""abc""
+)@lengthOf(
+    uint8x )
+@leftPad(
+)
+    // " ++ [27880; 37322]%N ++ runes_of_ascii "
+    i8 x ,
+    repeat
+As{ _x	@calculatedFrom(
+    // @lengthOf(
+    ""x y"")`100% of %d` , i16
+    options1 @lengthOf(
+o ) , repeat string i8i8 ,
+    char[ 255 ]packetx `a\` ,} ,	@leftPad( // 50% %s
+'\x00' )u32 u128
+@lengthOf(msg_type )
+    `// not a comment` , zchar @lengthOf(crc
+)
+, char[0
+    ]
+a1, @leftPad
+(' ') char[ 4294967296 ]	int , }
+")).
+Eval vm_compute in ("<<<M4410>>>" ++ check (runes_of_ascii "packet tag {
+    @tag(1)
+    @calculatedFrom(""abc"")
+    char[] Logon,
+    char[] Logon @calculatedFrom(""a\\""),
+    uint8x {
+        // a // b
+        //
+        char[] float,
+        repeat char[] zchar,
+        match f32a as f32a {
+            ""abc"" : options1,
+            007 : _x,
+            10 : BodyLength,
+        },
+    },
+    @lengthOf(f32a)
+    @lengthOf(Header)
+    @lengthOf(msg_type)
+    repeat Logon i64_,
+    @calculatedFrom(""" ++ [28040; 24687]%N ++ runes_of_ascii """)
+    repeat int roots,/// triple
+    @lengthOf(zchar)
+    i16 stringy @calculatedFrom(""it's"") `u8 x,`,
+    @calculatedFrom(""{,}"")
+    match string_ as MetaDataX {
+        [""// no comment"", 007] : i8i8,
+        [1, ""packet""] : trueish,
+    },
+    //
+    /// triple
+}")).
+Eval vm_compute in ("<<<M702>>>" ++ check (runes_of_ascii "packet crc {
+match
+    string_ as Z9_ {  [
+    /// triple
+    """ ++ [233]%N ++ runes_of_ascii "t" ++ [233]%N ++ runes_of_ascii """ ]
+    : tag ,
+    4294967296 : // a // b
+float 65535 :
+    i64_ , } ,	@leftPad
+( '\x00'  )@calculatedFrom(
+""{,}"" ) match MetaDataX as leftPad{0 : lengthOf ,} , BodyLength{ match	calculatedFrom
+    as len{ // 50% %s
+10 : Packet	, },repeat zchar[ // @lengthOf(
+3] matchKey
+`crlf
+line` , } ,
+// 50% %s
+//x
+match u8x
+    as Packet {4294967296:
+    trueish , }
+    // `tick` ""quote"" 'q'
+    , match calculatedFrom as a1
+    { ""\" ++ [233]%N ++ runes_of_ascii """ : tag /// triple
+,[  65535 , //	t
+""a\""b""
+, // " ++ [128512]%N ++ runes_of_ascii " emoji
+3 ] :
+    asx ,""" ++ [233]%N ++ runes_of_ascii "t" ++ [233]%N ++ runes_of_ascii """ : uint8x } , @calculatedFrom( ""x y""
+    ) repeat uint64
+roots `line1
+line2` //	t
+,trueish
+uint8x  ,
+}
+
+")).
+Eval vm_compute in ("<<<M30>>>" ++ check (runes_of_ascii "packet
+u8x{ char[ 7 ]Logon//x
+, @lengthOf( Foo) trueish Header
+    , match
+repeatCount as o { 00
+: uint8x, [ 007 // " ++ [27880; 37322]%N ++ runes_of_ascii "
+]
+    :calculatedFrom
+""abc"":
+_x , } , char[] MetaDataX `it's` , } root  packet _x {
+@lengthOf(As)
+@lengthOf( asx
+    ) zchar[ 42 //	t
+]
+    u128	@calculatedFrom( """ ++ [28040; 24687]%N ++ runes_of_ascii """ ),
+repeat string
+_x , asx{ zchar[ 1  ]
+crc
+    ,}
+,
+    } packet trueish { match
+    i64_ as
+    tag
+{ 3:
+    roots  ,
+0123456789 :
+    options1
+    ,""it's""
+    :
+stringy , } , @tag(
+    // `tick` ""quote"" 'q'
+    10 ) @rightPad (// @lengthOf(
+' ' )  @rightPad	(
+    /// triple
+    '\x00' )
+repeat i64 // @lengthOf(
+packetx
+, repeat//x
+o  x `// not a comment` , }
+")).
+Eval vm_compute in ("<<<M3459>>>" ++ check (runes_of_ascii "options {
+    StringPrefixLenType = u64;
+    ArrayPrefixLenType = u16;
+}
+packet Heartbeat {
+    uint32 Side2,
+    u8 OrderId,
+    string Tail,
+    InPx95 {
+        char[3] Note,
+        char[2] count,
+        repeat InOrderid76 {
+            char[12] f1,
+        },
+        uint8 lastPx,
+        char[] seqNo,
+    },
+}
+packet Leg {
+    zchar[5] tag7,
+    Heartbeat,
+}
+root packet Reject {
+    u8 Ref,
+    uint8 Flags,
+    repeat Leg,
+    zchar[1] venue,
+    zchar[9] clOrdID,
+    u8 Tail,
+    u32 price @lengthOf(Body),
+    match Tail as Body {
+        84 : Heartbeat,
+        6 : Leg,
+    },
+    u32 Note @calculatedFrom(""CR\
+C32""),
+}
+")).
+Eval vm_compute in ("<<<M3542>>>" ++ check (runes_of_ascii "packet  A {}	packet u128{
+
+    match
+Pad as	asx 
+{1	:
+repeatCount  ,
+255
+:
+
+    As 4294967296
+    //	t
+  	// " ++ [128512]%N ++ runes_of_ascii " emoji
+
+:	falsey
+	,
+	[	// " ++ [27880; 37322]%N ++ runes_of_ascii "
+    	""a	b"" 
+]
+    :
+float ,	""1"" 
+:
+
+msg_type  ,
+
+    [	7
+, ""a\\"" ,
+
+    ""a\\""
+, 
+255
+
+,
+
+    4294967296 ,
+
+3 ,
+    007
+
+    ]
+:string_
+, }  ,
+    @tag(
+
+    0	) match
+
+lengthOf 
+as // " ++ [128512]%N ++ runes_of_ascii " emoji
+  options1	// c
+    {  [ ""it's"" 	 // packet A { u8 x, }
+
+] 	 // " ++ [27880; 37322]%N ++ runes_of_ascii "
+    	:
+float
+	,
+7
+: Foo
+	[  ""{,}"" 
+]
+: packetx  ,
+    }
+, 
+@tag(
+	007) char[ 00 
+        // packet A { u8 x, }
+  /// triple
+] x_y_z@calculatedFrom(
+
+    ""`tick`"")	, repeat
+
+u8
+i8i8`doc`  ,
+} ")).
+Eval vm_compute in ("<<<M540>>>" ++ check (runes_of_ascii "packet leftPad { }
+options
+    { u8x =
+    false ; A=	42 ; rootA = ""1"" ; }
+root packet
+crc { @leftPad ( '\x00' ) @calculatedFrom( ""`tick`""	)@calculatedFrom(
+""a	b"") len{repeat Foo{ Foo  { char[ 255]  string_@calculatedFrom(  ""CRC32""  ) // a // b
+`crlf
+line` ,
+    char[] chars  @lengthOf(_x  ) , } ,	repeat asx `
+` ,},char[]trueish
+@lengthOf(
+i8i8
+    ) ,repeat // @lengthOf(
+msg_type`line1
+line2` // `tick` ""quote"" 'q'
+, zchar[ 10	]  asx ,
+    }
+, }
+packet body
+{ } packet
+    Packet// " ++ [128512]%N ++ runes_of_ascii " emoji
+{
+    @lengthOf( zchar )string u8x
+`two words` ,
+    // packet A { u8 x, }
+    } // " ++ [27880; 37322]%N)).
+Eval vm_compute in ("<<<M4422>>>" ++ check (runes_of_ascii "MetaData
+    stringy
+
+    {
+i32
+
+leftPad `" ++ [233]%N ++ runes_of_ascii "` ,
+
+    u32 crc,x_y_z Z9_	`crlf
+line`	,
+
+Header int,	uint16 	 // a // b
+	charz
+	,  }// @lengthOf(
+  root
+    packet
+len
+{ 
+_x lengthOf,	uint8x
+	@calculatedFrom(
+	""" ++ [128512]%N ++ runes_of_ascii """ 
+    // a // b
+
+	)
+
+,
+@rightPad
+
+    ( '\x00') @calculatedFrom(""" ++ [128512]%N ++ runes_of_ascii """
+	) @leftPad('0'
+	)  repeat	crc { 
+	    // packet A { u8 x, }
+	// trailing space 
+	  char[	007
+
+    ] BodyLength
+
+    ,
+charz 
+@calculatedFrom( ""a	b"" )`{ , }`, 
+uint16
+	matchKey  
+  // `tick` ""quote"" 'q'
+
+@calculatedFrom(	""it's"" )// @lengthOf(
+    , 
+/// triple
+    } 
+,
+}")).
+Eval vm_compute in ("<<<M424>>>" ++ check (runes_of_ascii "  packet
+    int
+    { trueish, } root packet zchar{ @leftPad ( '0' ) uint32
+Packet`doc` ,
+    repeat packetx  { lengthOf {
+    u8
+zchar
+    `" ++ [28040; 24687; 31867; 22411]%N ++ runes_of_ascii "` ,
+    match chars as
+    // packet A { u8 x, }
+    i8i8 {
+255
+:
+Header 7
+:
+    //
+    rootA ,
+00
+:	falsey
+    ,	} ,
+} ,
+u8 u
+    `two words` ,
+    match uint8x as// trailing space 
+A {  [""CRC32""]	: Header , ""\n"" :
+msg_type , }
+, }  ,match charz	as A {""" ++ [28040; 24687]%N ++ runes_of_ascii """ : _x
+    , [
+007 , 00
+] : uint8x [ 1
+,// packet A { u8 x, }
+7 ,
+    42 ]	:
+packetx 4294967296
+: pack , }
+, }packet
+    i64_
+{	}
+
+")).
+Eval vm_compute in ("<<<M1243>>>" ++ check (runes_of_ascii "  packet a1 {
+    u8 Packet `it's`  , @leftPad	(
+)
+    msg_type
+    , @lengthOf( crc)As repeatCount ,
+// 50% %s
+// c
+@calculatedFrom( ""a\\""	)@calculatedFrom(
+//x
+//x
+""" ++ [233]%N ++ runes_of_ascii "t" ++ [233]%N ++ runes_of_ascii """ // packet A { u8 x, }
+)@tag(00	)	i16	As , @lengthOf(	int ) matchKey {
+    len
+{
+zchar[
+    //x
+    255]crc
+//x
+//	t
+, repeat char[]	charz	,
+repeat
+i8 x_y_z `{ , }` , rootA
+@calculatedFrom(""" ++ [28040; 24687]%N ++ runes_of_ascii """) `
+`,  } // " ++ [128512]%N ++ runes_of_ascii " emoji
+, } ,}
+    // a // b
+    MetaData	metadata  { u16 x ,
+i8i8 crc
+    // packet A { u8 x, }
+    , f32 Packet , float64 chars , }
+
+")).
+Eval vm_compute in ("<<<M4051>>>" ++ check (runes_of_ascii "
+packet
+    uint8x { @tag(  7)
+    @lengthOf(asx
+    ) @tag(
+    0  )
+	zchar[
+
+65535
+        // trailing space 
+	]
+// trailing space 
+      f32a	`line1
+line2` ,string_ ,  @tag(
+0 )	@calculatedFrom( 
+""a	b""
+/// triple
+    ) 
+@tag(
+
+    007	)
+    match
+
+crc as // @lengthOf(
+
+	stringy 
+{  ""`tick`""  :As 
+""CRC32""
+
+    :
+metadata
+	,
+[ // `tick` ""quote"" 'q'
+	""`tick`""
+    ] : stringy
+,	[ ""\" ++ [233]%N ++ runes_of_ascii """
+
+    ] :
+
+x """ ++ [233]%N ++ runes_of_ascii "t" ++ [233]%N ++ runes_of_ascii """
+	:roots
+    ,
+	}	,
+char[] trueish @lengthOf( Header
+    )
+    ``
+
+    , 
+}
+")).
+Eval vm_compute in ("<<<M1215>>>" ++ check (runes_of_ascii "// `tick` ""quote"" 'q'
+root packet x_y_z	{
+repeat zchar[
+1
+] body	,
+    @calculatedFrom( ""a	b"" ) A {repeat i16
+Foo
+`tab	here`, _x @calculatedFrom(""" ++ [28040; 24687]%N ++ runes_of_ascii """ )// `tick` ""quote"" 'q'
+`it's` , } ,	match charz as charz
+    {
+10
+    :
+    leftPad , 10
+: leftPad
+0123456789
+:
+    float , },@calculatedFrom( """ ++ [233]%N ++ runes_of_ascii "t" ++ [233]%N ++ runes_of_ascii """
+    ) zchar[007 ] charz`it's` // packet A { u8 x, }
+, } options{} root /// triple
+packet
+falsey
+{
+// trailing space 
+// trailing space 
+repeat char[ 42 ] len,
+}
+")).
+Eval vm_compute in ("<<<M3676>>>" ++ check (runes_of_ascii "
 
   packet
 
-    //
-	  // " ++ [128512]%N ++ runes_of_ascii " emoji
-    body  {	@calculatedFrom( """ ++ [233]%N ++ runes_of_ascii "t" ++ [233]%N ++ runes_of_ascii """ 
-)	body
-
-    {
-o @calculatedFrom( """ ++ [233]%N ++ runes_of_ascii "t" ++ [233]%N ++ runes_of_ascii """ 
-),  } ,  char	i8i8 @lengthOf( int
-    )	`doc`
-	,
-    @rightPad ( 
-)
-	char[ 
-0	]
-tag  @lengthOf(
-repeatCount 
-)
-,
-
-    @calculatedFrom(""""
-)	x
-    @calculatedFrom(
-
-    """ ++ [28040; 24687]%N ++ runes_of_ascii """  ) ,
-	@calculatedFrom(	""""  )// c
-    	Packet `u8 x,`
-
-    , 	 // trailing space 
-  string
-    x_y_z ,
-    string_
-    charz `doc`
-, match packetx as	string_ { 00	:
-    asx
-	,
-[""\n"" ]  // " ++ [128512]%N ++ runes_of_ascii " emoji
-:	float ,
-
-[
-    """ ++ [28040; 24687]%N ++ runes_of_ascii """  
-      // @lengthOf(
-    /// triple
-,  3 ] 
-: Foo ,  [
-
-0123456789 ,
-    ""1""
-] :  o 
-""\" ++ [233]%N ++ runes_of_ascii """  : 
-_x
-, 0123456789
-
-: matchKey
-	}
-,
-
-    @rightPad
-( ' ' 
-)
-
-stringy {	match calculatedFrom
-    as 
-o { // c
-
-1  :
-    x_y_z
-	,	007
-:  pack
-,
-	3:
-asx 
-        // trailing space 
-  	,// " ++ [27880; 37322]%N ++ runes_of_ascii "
-	}, }
-
-,
-@calculatedFrom(
-    """" )
-@tag( 4294967296
-	) 
-repeat i64 // packet A { u8 x, }
-  chars,
-}
-	packet roots {
-
-}
-
-root
-
-packet rootA  {
-
-@tag(	255
-
-    )	pack	`it's` ,  @lengthOf(
-f32a )
-
-@tag(
-    // a // b
-  1	)
-
-@tag( 7 ) 
-      // " ++ [128512]%N ++ runes_of_ascii " emoji
-
-Foo@calculatedFrom(  
+x_y_z
+    { float64  leftPad @lengthOf(	repeatCount) ,	match
+    msg_type  
   //x
-  //
-""" ++ [128512]%N ++ runes_of_ascii """
-    ) ,
-    repeat
-calculatedFrom
-{ string
-	leftPad
+  as
 
-`doc` 
-,
+    x 
+{ 65535:
+	    // `tick` ""quote"" 'q'
+    // packet A { u8 x, }
+	roots
 
-    repeat
-	crc
-{ 
-pack
-	@calculatedFrom( ""\" ++ [233]%N ++ runes_of_ascii """
+    ,
+
+4294967296	: metadata
+
+    ,
+
+},}
+
+packet
+float 
+{u64	x_y_z 	 // packet A { u8 x, }
+	``
+    ,char[ 7 ] A	@lengthOf(
+Packet 
+
+    // 50% %s
+
 )
 
-    ,
+    `" ++ [233]%N ++ runes_of_ascii "`, repeat
+o
+	{ string
 
-}
-,
-}
+MetaDataX
+`{ , }`  , }
+	,  @lengthOf(uint8x
 
-,  string_	{match i64_ as u8x{
-    0:_x ,
-},
-
-    },
-@lengthOf( u128 
-)	// trailing space 
-    match	asx
-
-    as
-	charz
-
-{
-["""" , 4294967296
-
-    ]
-:
-
-    A , 	 // trailing space 
-    1: options1
-, 4294967296 : pack
-42	: charz
-,
-[	""`tick`""	,  // a // b
-""x y""	/// triple
-  , 	 // " ++ [27880; 37322]%N ++ runes_of_ascii "
-  255 
-]  // packet A { u8 x, }
-    : 
-stringy
-,},
-@rightPad
-	(  ' '
-
-)@lengthOf(	// c
-
-Packet
-
-    )	repeat
-	uint8x 
-trueish
-	,
-}  MetaData  i8i8 
-{ zchar[ 10 
-]Z9_	, zchar[
-	0
-	]Header`a\`
-,stringy  roots	// " ++ [27880; 37322]%N ++ runes_of_ascii "
-, } 
-packet
-options1  // c
-  { char[
-10
-    ] Pad
-@calculatedFrom(
-""\n""
-)
-	`// not a comment`	,
-    roots
-    ,
-    @calculatedFrom(
-    ""x y""
-)	zchar
-    ,  @rightPad 
-(  '0' )
-repeat  string 
-
-    //x
-    	//
-		roots	`say ""hi""` ,
-
-    } ")).
-Eval vm_compute in ("<<<M105>>>" ++ check (runes_of_ascii "packet
-uint8x {match Pad as// " ++ [128512]%N ++ runes_of_ascii " emoji
-repeatCount{ [0 ] :
-lengthOf ,[""// no comment"" ] :
-metadata ,} , metadata
-// trailing space 
-//
-, zchar[/// triple
-1
-] trueish//	t
-, @calculatedFrom(""a\""b"" ) match//x
-roots as f32a { 4294967296
-: i64_ , ""it's""
-: a1 , [
-    // trailing space 
-    00	,
-    0123456789 ] : As ,
-255 : Packet , ""{,}"" :
-T/// triple
-0
-    :
-falsey } ,
-    body @calculatedFrom( ""\n""
-    // trailing space 
-    ) , @calculatedFrom( """ ++ [128512]%N ++ runes_of_ascii """ )	@tag(
-10 ) char[ 10 ]
-    trueish `doc` ,	@tag( 255 ) repeat
-    Z9_ { asx chars`// not a comment` , } , @lengthOf(Packet ) u16
-    crc , }
-    // `tick` ""quote"" 'q'
-    options
-{ BodyLength =
-    i32 ; x// " ++ [128512]%N ++ runes_of_ascii " emoji
-=
-255
-    ; u= 3 } options
-{ }
-packet
-    calculatedFrom {	}
-    //x
-    root
-packet Header {
-    Pad {
-repeatCount ,  uint16 zchar , match msg_type
-as
-pack
-    /// triple
-    {	""abc"" : repeatCount , ""{,}"" : repeatCount""a	b""	: calculatedFrom},
-repeat string
-Logon `a\` , }
-,@lengthOf( x_y_z
-    ) match
-tag as repeatCount { 007 :  BodyLength , [
-    //	t
-    """ ++ [28040; 24687]%N ++ runes_of_ascii """ ] :
-BodyLength 42: string_ ""// no comment""
-// trailing space 
-/// triple
-: //
-Z9_ , 4294967296:
-    // " ++ [128512]%N ++ runes_of_ascii " emoji
-    _x
-    } , f64 u `it's` , zchar[ 00] f32a `doc` ,match
-    i64_
-    as Logon
-    { 4294967296// a // b
-:
-metadata ,
-}
-, char[1 ]Pad
-, zchar[  0123456789 ] float // @lengthOf(
-`` , }
-
-")).
-Eval vm_compute in ("<<<M1956>>>" ++ check (runes_of_ascii "root packet As {
-    @calculatedFrom(""{,}"")
-    zchar[4294967296] As,
-    @tag(7)
-    repeat pack {
-        body {
-            // trailing space 
-            zchar[65535] MetaDataX `doc`,
-            string_ @lengthOf(Logon),
-            i64 MetaDataX @calculatedFrom("""") `a\`,//x
-            repeat char[] Foo,
-        },
-        /// triple
-        // packet A { u8 x, }
-    },
-    @lengthOf(MetaDataX)
-    @calculatedFrom(""\n"")
-    @lengthOf(float)
-    char[0123456789] a1 @calculatedFrom(""a\""b""),
-    repeat msg_type {
-        // `tick` ""quote"" 'q'
-        repeat f64 Packet `a\`,
-        int64 asx @calculatedFrom(""{,}"") `" ++ [233]%N ++ runes_of_ascii "`,
-        zchar[3] metadata,
-        zchar[00] x_y_z @calculatedFrom(""CRC32""),
-    },
-}
-
-packet calculatedFrom {
-    match calculatedFrom as BodyLength {
-        65535 : Foo,
-    },
-    match int as falsey {
-        42 : body,
-        [""abc"", ""\n"", ""abc"", """ ++ [28040; 24687]%N ++ runes_of_ascii """] : stringy,
-        [0123456789, ""{,}"", 42, 1] : trueish,
-        ""`tick`"" : metadata,
-        [""1"", ""a	b"", 42] : zchar,
-    },
-    repeat zchar[4294967296] stringy `line1
-        line2`,
-}
-
-options {
-    stringy = ' ';
-}")).
-Eval vm_compute in ("<<<M1555>>>" ++ check (runes_of_ascii "
-options {StringPrefixLenType
-    =
-
-u64;  ArrayPrefixLenType
-	=
-
-u16
-    ; FixedStringPadChar  =  ' '
-
-    ;
-
-}  packet
-    Logon	{
-    i32	msgKind
-    , repeat InOrderid65 {
-	u8	pad0 
-,
-
-}  ,
-
-    i8 
-tag7
-
-,
-@leftPad(
-	' '  )char[ 
-12
-    ]x
-
-,}packet
-
-Leg{ char[]
-	f1 , 
-repeat 
-char[ 
-5 ] Px 
-,
-InQty34{repeat char[6 ]
-
-    Qty , char[
-	7]
-seqNo	,string count ,
-}
-    ,
-	Logon,  } packet Party{
-@leftPad('0'	)
-
-    char[
-	10
-]
-OrderId,
-string
-	Tail
-, 
-}  packet
-Fill
-
-{zchar[
-
-5
-    ] venue , zchar[
-	3
-] clOrdID,  InRef95{
-	InLastpx25
-    {
-	u8 
-pad0
-,
-
-} , float64	OrderId  ,i32 f1
-,float32 
-x  ,
-
-    char[]
-
-seqNo
-
-,
-}
-
-, repeat
-
-string seqNo , } root
-packet
-
-    Heartbeat
-{	repeat Leg
-    ,  u32 seqNo
-, 
-u16
-
-tag7
-    ,
-
-u32 Flags@lengthOf(
-Body ) 
-,
-match
-
-tag7 as
-
-    Body	{
-
-[	195  ,
-	75	] :Party  ,
-	171
-:Fill
-
-, 
-78
-    : 
-Logon
-	, 142:	Leg
-,	}
-	,u32
-Note
-	@calculatedFrom(
-
-""CRC32""  )
-
-    ,
-
-}
-")).
-Eval vm_compute in ("<<<M166>>>" ++ check (runes_of_ascii "packet A {
-@lengthOf(
-    lengthOf)int16 packetx // trailing space 
-@calculatedFrom(""1"" )
-    , repeat u64 Packet`
-` , match trueish as /// triple
-roots { 3
-: A ,""x y""
-// " ++ [27880; 37322]%N ++ runes_of_ascii "
-//
-:
-BodyLength
+)string  int `it's`
     //
-    ,
-    42:Foo  , },
-} packet As	{
-    msg_type @lengthOf(
-    /// triple
-    u )
-    , }root packet
-    zchar
-    {i8i8 i8i8
-`
-` ,zchar
-    {int8	Foo
-`a\`  , },
-    f32 pack @lengthOf(
-crc
-// packet A { u8 x, }
-// c
-) , @calculatedFrom( ""{,}""	) // " ++ [27880; 37322]%N ++ runes_of_ascii "
-match crc as
-roots { 65535 : int ""packet""
-:  float ,00 : zchar
-// packet A { u8 x, }
-// `tick` ""quote"" 'q'
-, [ ""x y""] :
-options1, ""it's""
-:x, } , @lengthOf(
-Packet)
-    match x
-    //	t
-    as As{ //	t
-0: lengthOf
-,
-    //	t
-    3 : pack , ""it's""  : x_y_z ,
-""a\""b"" : metadata
-} , uint16
-    i8i8, } // a // b")).
-Eval vm_compute in ("<<<M242>>>" ++ check (runes_of_ascii "packet
-    uint8x { @tag(	0123456789 // a // b
-) match u as
-As
-    {
-    ""1""
-    :	o ,4294967296 : charz [ ""CRC32""
-    ]	: A , 42: zchar, ""CRC32"" : leftPad //	t
-,
-    """ ++ [28040; 24687]%N ++ runes_of_ascii """// " ++ [128512]%N ++ runes_of_ascii " emoji
-: uint8x, } , }
-    options {
-u128 = uint32
+  , } ")).
+Eval vm_compute in ("<<<M4052>>>" ++ check (runes_of_ascii "options {
+}
+
+root packet A {
+    @tag(00)
+    int64 u8x,// @lengthOf(
+    @calculatedFrom(""a\""b"")
+    // packet A { u8 x, }
+    repeat crc,
+    @tag(10)
+    x_y_z,
+    char[] u `line1
+    line2`,
+}
+
+root packet leftPad {
+    float @lengthOf(packetx),
+    match msg_type as matchKey {
+        [""it's"", ""x y"", 1] : i8i8,
+        [""a	b"", 42, 00] : string_,
+        """ ++ [28040; 24687]%N ++ runes_of_ascii """ : asx,
+    },
+    char[0123456789] roots `say ""hi""`,
+}
+// " ++ [27880; 37322]%N)).
+Eval vm_compute in ("<<<M432>>>" ++ check (runes_of_ascii "packet calculatedFrom { Z9_ repeatCount,
+@tag(
+    // trailing space 
+    4294967296 ) u16 Foo, zchar[ 255 ] _x ,As{
+// 50% %s
+/// triple
+zchar[
+65535 ] charz ,//x
+f64 A
+`crlf
+line`, } , // `tick` ""quote"" 'q'
 }
     packet
-chars
-{
-    // a // b
-    float @lengthOf( _x ) // `tick` ""quote"" 'q'
-, string
-    chars@lengthOf(
-matchKey
-// @lengthOf(
-// packet A { u8 x, }
-) , match  crc as
-    Z9_ {0123456789 : int
-    ,""x y"" //
-:
-    rootA,	""`tick`""
-    : As,
-    // @lengthOf(
-    } ,@tag(7 )
-Pad @lengthOf( trueish  )`u8 x,`
-,}
-packet float
-{ repeat Packet{ lengthOf {
-    //
-    repeat f32a`it's`
-, } ,	o @lengthOf( calculatedFrom	)  , }
-,}
-
-")).
-Eval vm_compute in ("<<<M101>>>" ++ check (runes_of_ascii "
-root
-packet Packet
-{ char[0123456789 ] pack @lengthOf(
-As ) `{ , }`,
-repeat
-    // `tick` ""quote"" 'q'
-    string
-    rootA ,	match
-repeatCount
-    as
-    pack /// triple
-{ ""a\""b""
-    :uint8x// packet A { u8 x, }
-[ ""x y"" ,
-    ""it's""
-    // " ++ [128512]%N ++ runes_of_ascii " emoji
-    ]	: chars
-    ""\" ++ [233]%N ++ runes_of_ascii """
-: //	t
-crc	0123456789 :Packet ,[""1""
-]:	A ,
-    // @lengthOf(
-    } ,// `tick` ""quote"" 'q'
-} options /// triple
-{ }packet pack // trailing space 
-{ i8//x
-MetaDataX ,string float
-`" ++ [28040; 24687; 31867; 22411]%N ++ runes_of_ascii "`,@lengthOf( trueish)
-@calculatedFrom(
-    ""`tick`"" ) f64 lengthOf ,repeat pack	packetx
-// trailing space 
-// packet A { u8 x, }
-, }
-")).
-Eval vm_compute in ("<<<M1921>>>" ++ check (runes_of_ascii "root packet i8i8 {
-    BodyLength `" ++ [28040; 24687; 31867; 22411]%N ++ runes_of_ascii "`,
-    Header,
-    int16 len @lengthOf(msg_type) `
-        `,
-    @leftPad(' ')
-    @rightPad()
-    // trailing space 
-    @calculatedFrom(""x y"")
-    repeatCount @calculatedFrom(""packet"") `crlf
-        line`,
-    @lengthOf(falsey)
-    roots @lengthOf(metadata) `line1
-        line2`,
-    i8 i64_,
-    @tag(4294967296)
-    @tag(3)
-    repeat zchar[1] lengthOf,
-    @lengthOf(Logon)
-    repeat asx {
-        stringy float `line1
-                line2`,
-        Pad,
-    },
-}")).
-Eval vm_compute in ("<<<M1929>>>" ++ check (runes_of_ascii "packet i8i8
-
-    {
-
-matchKey//x
-	,match  trueish 
-	//	t
-  // c
-    as roots
-    { 
-[	00 ]  : int,
-	255:	u128 , 3	:  matchKey
+u {match x_y_z as int {
+[	""it's"" ]:
+uint8x , 4294967296 : i64_
     ,
-
-[
-    65535 ]
-    :
-    // c
+""x y""	: BodyLength
+// packet A { u8 x, }
+// trailing space 
+, ""x y"" :u8x	,
+    }, //	t
+}options { As =
+    f64 ;  }")).
+Eval vm_compute in ("<<<M183>>>" ++ check (runes_of_ascii "options {As	= 007 x
+    // a // b
+    =
+    false ; x_y_z // trailing space 
+= ""a\\""
 //
-  trueish
-
-,  //	t
-	  }
-	,
-
-    }packet packetx 
-{ 
-}	packet 
-u8x
-    {
-@tag(
-
-3
-)  match x_y_z
-
-    as leftPad	{
-
-    [
-
-    7	]  :u8x}
-	,@tag(42)int64
-
-lengthOf ,
-@tag(255  )
-
-zchar[
-	7]
-o 
-, 
-A
-	,@tag(  0  
-  // @lengthOf(
-		) 
-repeat
-
-lengthOf u8x ,	}
-
+// 50% %s
+; }
+packet BodyLength{
+    @tag(  255
+)// " ++ [128512]%N ++ runes_of_ascii " emoji
+match trueish
+    // c
+    as Pad {
+""a\\"" : calculatedFrom	, ""a	b""//
+:leftPad
+    } , }
+MetaData calculatedFrom{
+    char[ 3 ]matchKey , char[ 4294967296  ] matchKey	, o x_y_z
+, lengthOf packetx
+    `crlf
+line`,
+// packet A { u8 x, }
+//	t
+}
 ")).
-Eval vm_compute in ("<<<M1219>>>" ++ check (runes_of_ascii "// top
-root
-    // c0
-packet
-    // c1
-matchKey
-    // c2
-{
-    // c3
-zchar[
-    // c4
-3
-    // c5
-]
-    // c6
-pack
-    // c7
-@calculatedFrom(
-    // c8
-""a	b""
-    // c9
-)
-    // c10
-`doc`
-    // c11
-,
-    // c12
-}
-    // c13
-options
-    // c14
-{
-    // c15
-}
-    // c16
-MetaData
-    // c17
-A
-    // c18
-{
-    // c19
-int8
-    // c20
-msg_type
-    // c21
-,
-    // c22
-}
-    // c23
-")).
-Eval vm_compute in ("<<<M1567>>>" ++ check (runes_of_ascii "options {
+Eval vm_compute in ("<<<M3485>>>" ++ check (runes_of_ascii "options {
+    LittleEndian = true;
+    StringPrefixLenType = u16;
+    ArrayPrefixLenType = u64;
     FixedStringPadFromLeft = true;
     FixedStringPadChar = ' ';
 }
 packet Reject {
+    zchar[3] OrderId,
+    int16 Flags,
+    @leftPad(' ') char[11] x,
+    u16 tag7,
 }
-packet Fill {
-    repeat i16 Tail,
+packet Quote {
+    Reject,
+    char[] Qty,
+    repeat f32 f1,
+    zchar[5] Flags,
 }
-root packet Trade {
-    float64 Ref,
-    Fill,
-    u8 Note,
-    u16 count @lengthOf(Body),
-    match Note as Body {
-        [98, 101] : Fill,
-        34 : Reject,
+root packet Leg {
+    i32 Px,
+}
+")).
+Eval vm_compute in ("<<<M4090>>>" ++ check (runes_of_ascii "packet Logon {
+    tag @lengthOf(Packet) `a\`,
+    u64 u128,
+    crc,
+    @lengthOf(A)
+    match rootA as chars {
+        [
+            00, ""// no comment"", 65535, 65535, ""CRC32"",
+            ""\" ++ [233]%N ++ runes_of_ascii """, 1
+        ] : u128,
+        [""\" ++ [233]%N ++ runes_of_ascii """, 1, """"] : rootA,
+        255 : Pad,
+        //	t
+        0123456789 : x_y_z,
+        ""{,}"" : float,
+        7 : packetx,
     },
-    u32 x @calculatedFrom(""CRC32""),
-}
-")).
-Eval vm_compute in ("<<<M290>>>" ++ check (runes_of_ascii "packet i8i8
-{ zchar[	10 ]a1 ,	}packet x_y_z {
+}")).
+Eval vm_compute in ("<<<M478>>>" ++ check (runes_of_ascii "
+MetaData string_
+{ x charz `say ""hi""` , options1 options1 `line1
+line2` , } packet tag { @lengthOf( zchar
+) calculatedFrom zchar , @calculatedFrom(	""`tick`""
+)
+Foo
+/// triple
 //
-// c
-} options{	matchKey
-= false// " ++ [128512]%N ++ runes_of_ascii " emoji
-;
-Foo=
-i32 ; MetaDataX  = 007 pack =
-""" ++ [28040; 24687]%N ++ runes_of_ascii """
-// a // b
-// c
-; }  packet leftPad  {} root packet// a // b
-stringy{/// triple
-rootA Pad ,	falsey @calculatedFrom( ""it's"") `two words` , u8x float
-, int64
-u8x, } //x")).
-Eval vm_compute in ("<<<M116>>>" ++ check (runes_of_ascii "packet string_ { trueish
-{options1 @lengthOf( Z9_ ) `// not a comment` , // c
-_x
+`tab	here` // trailing space 
+, match packetx /// triple
+as Pad {[
+// `tick` ""quote"" 'q'
+// trailing space 
+""packet"", ""a	b"" , """ ++ [233]%N ++ runes_of_ascii "t" ++ [233]%N ++ runes_of_ascii """ , ""abc"",255
+]: falsey} , }
+")).
+Eval vm_compute in ("<<<M4407>>>" ++ check (runes_of_ascii "MetaData len {
+}
+
+packet BodyLength {
+    char[42] A @calculatedFrom(""// no comment"") `it's`,
+    match Header as calculatedFrom {
+        ""`tick`"" : o,
+    },
+    //x
     //	t
-    @lengthOf( u128), /// triple
-match packetx as charz{[
-1 , 3 ,
-""a\\"" //x
-,10 ] : lengthOf ,
-""" ++ [28040; 24687]%N ++ runes_of_ascii """
-:float	""CRC32"" : // a // b
-calculatedFrom
-, """ ++ [128512]%N ++ runes_of_ascii """ : tag , 00
-:
-rootA, }
-    ,} ,}")).
-Eval vm_compute in ("<<<M82>>>" ++ check (runes_of_ascii "packet
-zchar {@rightPad (// a // b
-) uint8 a1 `line1
-line2` , @calculatedFrom( ""x y"" ) match pack as	matchKey
-{
-    /// triple
-    """ ++ [28040; 24687]%N ++ runes_of_ascii """  : //x
-u128 ,
-    3 : i64_
-    ""a\""b""
-    : As , } ,
-// " ++ [27880; 37322]%N ++ runes_of_ascii "
+    repeat packetx,
+}
+
+packet u {
+}
+
+packet x_y_z {
+    @lengthOf(repeatCount)
+    char[] charz @calculatedFrom(""it's"") ``,
+}
+
+packet calculatedFrom {
+}")).
+Eval vm_compute in ("<<<M1220>>>" ++ check (runes_of_ascii "packet //	t
+len
+{  @leftPad( ' ' )	string_ f32a
+,
+// " ++ [128512]%N ++ runes_of_ascii " emoji
+// 50% %s
+}
+//x
 // @lengthOf(
-u8 Packet	@calculatedFrom( ""// no comment"" ) //x
-,
-    }
-//
-")).
-Eval vm_compute in ("<<<M536>>>" ++ check (runes_of_ascii "root packet tag { }  packet MetaDataX{char[007	]
-// c
-/// triple
-root  @calculatedFrom( ""a\""b""
-) `say ""hi""`// " ++ [27880; 37322]%N ++ runes_of_ascii "
-,  @tag(4294967296 )
-    char[1//x
-] packetx @calculatedFrom(""a\""b""
-    ) ,
-// " ++ [128512]%N ++ runes_of_ascii " emoji
-// a // b
-@calculatedFrom(""" ++ [233]%N ++ runes_of_ascii "t" ++ [233]%N ++ runes_of_ascii """  ) repeat pack // " ++ [27880; 37322]%N ++ runes_of_ascii "
-,
-    } // c")).
-Eval vm_compute in ("<<<M565>>>" ++ check (runes_of_ascii "root packet tag { }  packet MetaDataX{char[007	]
-// c
-/// triple
-asx  @calculatedFrom( ""a\""b""
-) `say ""hi""`// " ++ [27880; 37322]%N ++ runes_of_ascii "
-,  4294967296@tag( )
-    char[1//x
-] packetx @calculatedFrom(""a\""b""
-    ) ,
-// " ++ [128512]%N ++ runes_of_ascii " emoji
-// a // b
-@calculatedFrom(""" ++ [233]%N ++ runes_of_ascii "t" ++ [233]%N ++ runes_of_ascii """  ) repeat pack // " ++ [27880; 37322]%N ++ runes_of_ascii "
-,
-    } // c")).
-Eval vm_compute in ("<<<M25>>>" ++ check (runes_of_ascii "
-root packet  calculatedFrom { repeat Header
-, } MetaData Header{ zchar[// packet A { u8 x, }
-10
-]	As
-    ,// trailing space 
-string
-chars, crc Logon `u8 x,`  , Z9_ Logon ,	}packet trueish
-    {}
-    MetaData
-A { }  options { options1
+MetaData As
+{char[
+    42 ]  string_ `say ""hi""`	,
+i8 Logon,MetaDataX f32a,} options{  pack =
+    zchar[42 ]; x_y_z = zchar[ 10 ] ;
+int=
+    ""1"" ; x_y_z
 =
-' '
+// `tick` ""quote"" 'q'
+// `tick` ""quote"" 'q'
+""packet"" matchKey =' ' }
+")).
+Eval vm_compute in ("<<<M1205>>>" ++ check (runes_of_ascii "root packet asx
+// `tick` ""quote"" 'q'
+// `tick` ""quote"" 'q'
+{
+} root
+    // `tick` ""quote"" 'q'
+    packet
+    MetaDataX// " ++ [128512]%N ++ runes_of_ascii " emoji
+{ } packet charz{ int32
+    o @calculatedFrom( ""CRC32""
+), }
+options { }
+packet crc
+{ @lengthOf(leftPad) @tag( 65535
+    ) @calculatedFrom(""a\""b""
+)
+string Header`" ++ [28040; 24687; 31867; 22411]%N ++ runes_of_ascii "` , }")).
+Eval vm_compute in ("<<<M3987>>>" ++ check (runes_of_ascii "packet _x {
+    char Packet,
+    // `tick` ""quote"" 'q'
+    // a // b
+}
+
+MetaData string_ {
+    char[] string_,
+    string T,
+    char u,
+    metadata stringy,
+    zchar[42] u8x,
+}
+
+MetaData calculatedFrom {
+}
+
+MetaData pack {
+    i16 u128 `{ , }`,
+    float64 metadata `a\`,
+}
+
+options {
+}")).
+Eval vm_compute in ("<<<M89>>>" ++ check (runes_of_ascii "packet metadata { // trailing space 
+roots
+uint8x , @leftPad
+    ( )zchar[
+3
+] Header,
+    i64_ roots , @lengthOf( A)
+    // " ++ [128512]%N ++ runes_of_ascii " emoji
+    @lengthOf( // trailing space 
+pack
+) @lengthOf( calculatedFrom
+// a // b
+/// triple
+)
+    // trailing space 
+    u8 charz `crlf
+line` , }")).
+Eval vm_compute in ("<<<M1622>>>" ++ check (runes_of_ascii "// 50% %s
+packet	a1
+    { zchar[
+// a // b
+// 50% %s
+007]
+T `it's`
+    ,@rightPad
+    // a // b
+    (
+'\x00')
+    o repeatCount , }  packet Logon {  }packet packet	Logon //x
+{ repeat // " ++ [128512]%N ++ runes_of_ascii " emoji
+uint16 u128
     //
-    ; //	t
+    `a\`,
+falsey
+@calculatedFrom(""packet"" ) ,
+    } 	 ")).
+Eval vm_compute in ("<<<M1614>>>" ++ check (runes_of_ascii "// 50% %s
+packet	a1
+    { zchar[
+// a // b
+// 50% %s
+007]
+T `it's`
+    ,@rightPad
+    // a // b
+    (
+'\x00')
+    o repeatCount , }  packet Logon int8  }packet	Logon //x
+{ repeat // " ++ [128512]%N ++ runes_of_ascii " emoji
+uint16 u128
+    //
+    `a\`,
+falsey
+@calculatedFrom(""packet"" ) ,
+    } 	 ")).
+Eval vm_compute in ("<<<M3881>>>" ++ check (runes_of_ascii "packet x_y_z {
+    @tag(7)
+    zchar[255] calculatedFrom,
+    zchar[1] Header `u8 x,`,
+    @lengthOf(falsey)
+    u16 u8x,
+    @lengthOf(chars)
+    charz @calculatedFrom(""`tick`"") `" ++ [233]%N ++ runes_of_ascii "`,
+}
+
+MetaData roots {
+    packetx msg_type `" ++ [233]%N ++ runes_of_ascii "`,
+    _x stringy,
+    zchar uint8x,
+}")).
+Eval vm_compute in ("<<<M1603>>>" ++ check (runes_of_ascii "// 50% %s
+packet	a1
+    { zchar[
+// a // b
+// 50% %s
+007]
+T `it's`
+    ,@rightPad
+    // a // b
+    (
+'\x00')
+    o repeatCount , }  Logon packet {  }packet	Logon //x
+{ repeat // " ++ [128512]%N ++ runes_of_ascii " emoji
+uint16 u128
+    //
+    `a\`,
+falsey
+@calculatedFrom(""packet"" ) ,
+    } 	 ")).
+Eval vm_compute in ("<<<M1616>>>" ++ check (runes_of_ascii "// 50% %s
+packet	a1
+    { zchar[
+// a // b
+// 50% %s
+007]
+T `it's`
+    ,@rightPad
+    // a // b
+    (
+'\x00')
+    o repeatCount , }  packet Logon {  packet	Logon //x
+{ repeat // " ++ [128512]%N ++ runes_of_ascii " emoji
+uint16 u128
+    //
+    `a\`,
+falsey
+@calculatedFrom(""packet"" ) ,
+    } 	 ")).
+Eval vm_compute in ("<<<M1519>>>" ++ check (runes_of_ascii "// 50% %s
+)	a1
+    { zchar[
+// a // b
+// 50% %s
+007]
+T `it's`
+    ,@rightPad
+    // a // b
+    (
+'\x00')
+    o repeatCount , }  packet Logon {  }packet	Logon //x
+{ repeat // " ++ [128512]%N ++ runes_of_ascii " emoji
+uint16 u128
+    //
+    `a\`,
+falsey
+@calculatedFrom(""packet"" ) ,
+    } 	 ")).
+Eval vm_compute in ("<<<M918>>>" ++ check (runes_of_ascii "
+packet i8i8 {
+repeat
+    char
+MetaDataX `u8 x,` , }packet
+MetaDataX{} root// " ++ [128512]%N ++ runes_of_ascii " emoji
+packet zchar{ @tag(
+4294967296
+    ) char[]
+falsey @lengthOf( tag ) , f64	T	,  } options {
+Packet	=	u32 ;
+    u128 = u8 trueish = string ; }
+root	packet body{ } 	 ")).
+Eval vm_compute in ("<<<M4430>>>" ++ check (runes_of_ascii "packet As {
+    zchar[42] float @calculatedFrom(""a\""b"") `{ , }`,// 50% %s
+    @tag(42)
+    @rightPad('0')
+    @calculatedFrom(""a\""b"")
+    repeat int32 Header,
+    float @lengthOf(falsey),
+    @leftPad()
+    uint32 options1 @lengthOf(Pad) `a\`,
+}")).
+Eval vm_compute in ("<<<M4393>>>" ++ check (runes_of_ascii "MetaData Header {
+    // trailing space 
+    i64 pack,
+}
+
+root packet charz {
+    repeat string BodyLength `// not a comment`,// " ++ [128512]%N ++ runes_of_ascii " emoji
+    @calculatedFrom(""{,}"")
+    zchar[1] i8i8 @lengthOf(uint8x),
+    zchar[00] a1,
+    uint64 u,
+}")).
+Eval vm_compute in ("<<<M3496>>>" ++ check (runes_of_ascii "packet  Logon
+
+    {
+u8 x
+,
+	string
+user,
+}packet	Logout
+{u16  reason
+    ,
+}
+    packet
+Empty {
+}
+    root
+	packet Frame 
+{
+u16
+	MsgType, @lengthOf( Body )
+	u64 BodyLen	,u8 flags	,
+Logon  Body ,	u32 
+trailer ,
 }
 ")).
-Eval vm_compute in ("<<<M603>>>" ++ check (runes_of_ascii "root packet tag { }  packet MetaDataX{char[007	]
-// c
-/// triple
-asx  @calculatedFrom( ""a\""b""
-) `say ""hi""`// " ++ [27880; 37322]%N ++ runes_of_ascii "
-,  @tag(4294967296 )
-    char[1//x
-] packetx @calculatedFrom(
-    ) ,
-// " ++ [128512]%N ++ runes_of_ascii " emoji
-// a // b
-@calculatedFrom(""" ++ [233]%N ++ runes_of_ascii "t" ++ [233]%N ++ runes_of_ascii """  ) repeat pack // " ++ [27880; 37322]%N ++ runes_of_ascii "
+Eval vm_compute in ("<<<M4424>>>" ++ check (runes_of_ascii "MetaData Header {
+    // trailing space 
+    char[3] Logon,
+    falsey options1,
+    char[] f32a,
+    // `tick` ""quote"" 'q'
+    // " ++ [27880; 37322]%N ++ runes_of_ascii "
+    chars Z9_,
+    int16 zchar `
+    `,
+}
+
+MetaData i64_ {
+}
+
+// " ++ [27880; 37322]%N ++ runes_of_ascii "
+packet _x {
+}")).
+Eval vm_compute in ("<<<M218>>>" ++ check (runes_of_ascii "packet Pad { repeat i32 Z9_ , } MetaData u8x{ // " ++ [128512]%N ++ runes_of_ascii " emoji
+msg_type Logon `a\` // packet A { u8 x, }
+,} MetaData
+    Pad { //	t
+} options{body =	4294967296;
+    a1
+    =
+42  ;
+asx= '\x00';
+//
+// @lengthOf(
+}
+")).
+Eval vm_compute in ("<<<M1136>>>" ++ check (runes_of_ascii "MetaData _x { char[
+255
+] MetaDataX // trailing space 
+`doc` , } options { f32a =
+    zchar[
+    // " ++ [27880; 37322]%N ++ runes_of_ascii "
+    42
+]
+    ; body = ""`tick`"" //x
+;
+As = // c
+true tag =3
+    ;packetx =
+    true } //	t")).
+Eval vm_compute in ("<<<M3444>>>" ++ check (runes_of_ascii "packet u128 {
+    u8 a,
+}
+root packet Msg {
+    u8 k,
+    u24 {
+        u8 Hi,
+        u16 Lo,
+    },
+    repeat i24 {
+        u32 q,
+    },
+    u128,
+    u16 float32x,
+    string s,
+}
+")).
+Eval vm_compute in ("<<<M3934>>>" ++ check (runes_of_ascii "packet rootA
+{  repeat
+    Packet
+BodyLength
+	`line1
+line2`// " ++ [27880; 37322]%N ++ runes_of_ascii "
+    ,
+i32
+	float
+	,	x_y_z
+
+`" ++ [233]%N ++ runes_of_ascii "` ,	} 
+packet//	t
+
+  msg_type
+{ // a // b
+char[]
+rootA@lengthOf(Z9_
+	)
+    ,}
+")).
+Eval vm_compute in ("<<<M779>>>" ++ check (runes_of_ascii "MetaData
+    x{	int32 int // a // b
+`line1
+line2` , } packet o
+{  u32 charz, char[
+1] x_y_z	`
+`
+    ,//	t
+len lengthOf,
+@lengthOf( charz )
+    i16 body`crlf
+line` ,}")).
+Eval vm_compute in ("<<<M4375>>>" ++ check (runes_of_ascii "
+options{
+
+    Logon  // @lengthOf(
+    =u16 roots 
+=
+    '\x00'
+//
+    //
+		;	o
+
+=
+    ""abc""
+;
+} packet  A	{// `tick` ""quote"" 'q'
+	Z9_ charz
+    ,
+    }
+")).
+Eval vm_compute in ("<<<M136>>>" ++ check (runes_of_ascii "packet As{ trueish @lengthOf( roots ) , }
+packet charz{}	options  { charz
+= ""a	b"" uint8x=
+    // a // b
+    4294967296 ; uint8x
+= '\x00' tag = string }
+")).
+Eval vm_compute in ("<<<M2176>>>" ++ check (runes_of_ascii "MetaData BodyLength
+{ int8 Foo
+, string
+    MetaDataX , float zchar ,pack options1
+,asx string_, }
+packet u8x {Foo@lengthOf(charz )
+`" ++ [28040; 24687; 31867; 22411]%N ++ runes_of_ascii "` `" ++ [28040; 24687; 31867; 22411]%N ++ runes_of_ascii "`,  }
+")).
+Eval vm_compute in ("<<<M458>>>" ++ check (runes_of_ascii "
+root packet int
+{chars @lengthOf( Foo) `a\`,
+    repeat char[0123456789
+]BodyLength , i8 T// " ++ [128512]%N ++ runes_of_ascii " emoji
+, @rightPad ( )  u64 lengthOf
+    ,
+    }
+")).
+Eval vm_compute in ("<<<M2039>>>" ++ check (runes_of_ascii "
+packet @lengthOfleftPad {
+@leftPad( '0')
+u32
+i64_ `100% of %d` ,repeat// 50% %s
+i8 chars
+    ,
+} MetaData
+    f32a
+{ // packet A { u8 x, }
+}")).
+Eval vm_compute in ("<<<M2082>>>" ++ check (runes_of_ascii "MetaData BodyLength
+{ int8 Foo
+, string
+    , MetaDataX float zchar ,pack options1
+,asx string_, }
+packet u8x {Foo@lengthOf(charz )
+`" ++ [28040; 24687; 31867; 22411]%N ++ runes_of_ascii "`,  }
+")).
+Eval vm_compute in ("<<<M2070>>>" ++ check (runes_of_ascii "MetaData BodyLength
+{ int8 Foo
+ string
+    MetaDataX , float zchar ,pack options1
+,asx string_, }
+packet u8x {Foo@lengthOf(charz )
+`" ++ [28040; 24687; 31867; 22411]%N ++ runes_of_ascii "`,  }
+")).
+Eval vm_compute in ("<<<M4011>>>" ++ check (runes_of_ascii "
+
+  packet
+	len
+
+{T @lengthOf(	lengthOf	) 
 ,
-    } // c")).
-Eval vm_compute in ("<<<M1523>>>" ++ check (runes_of_ascii "
-packet
-Logon{ 
-string user 
-, } 
-root packet
 
-    Frame  {
-u8
+    } packet
 
-K, match
-K as
-Body	{ 1
+    T
+{  // `tick` ""quote"" 'q'
+  repeat
+    zchar[ 7
+]
+body
 
-:
-	Logon
-, 2
-
-    : Logout
-
-    ,  } ,
-
-Tail ,	}
-	packet
-Logout
-    {u16
-    reason  ,
-
-    }	packet Tail
+    ,
+    }")).
+Eval vm_compute in ("<<<M2083>>>" ++ check (runes_of_ascii "MetaData BodyLength
+{ int8 Foo
+, string
+    """ ++ [233]%N ++ runes_of_ascii "t" ++ [233]%N ++ runes_of_ascii """ , float zchar ,pack options1
+,asx string_, }
+packet u8x {Foo@lengthOf(charz )
+`" ++ [28040; 24687; 31867; 22411]%N ++ runes_of_ascii "`,  }
+")).
+Eval vm_compute in ("<<<M2284>>>" ++ check (runes_of_ascii "options
     {
+x_y_z// " ++ [27880; 37322]%N ++ runes_of_ascii "
+= 10 ; }
+packet body {
+    @calculatedFrom(
+// trailing space 
+// " ++ [27880; 37322]%N ++ runes_of_ascii "
+""1""
+)	match T as as Foo
+    {
+255 :T , }
+,}")).
+Eval vm_compute in ("<<<M2309>>>" ++ check (runes_of_ascii "options
+    {
+x_y_z// " ++ [27880; 37322]%N ++ runes_of_ascii "
+= 10 ; }
+packet body {
+    @calculatedFrom(
+// trailing space 
+// " ++ [27880; 37322]%N ++ runes_of_ascii "
+""1""
+)	match T as Foo
+    {
+255 :T T , }
+,}")).
+Eval vm_compute in ("<<<M4149>>>" ++ check (runes_of_ascii "packet A {
+    match k as n {
+        [
+            1, ""bb"", 007, ""d"", 5,
+            ""f"", 7, ""h""
+        ] : B,
+        2 : C,
+    },
+}")).
+Eval vm_compute in ("<<<M2216>>>" ++ check (runes_of_ascii "options
+    x_y_z
+{// " ++ [27880; 37322]%N ++ runes_of_ascii "
+= 10 ; }
+packet body {
+    @calculatedFrom(
+// trailing space 
+// " ++ [27880; 37322]%N ++ runes_of_ascii "
+""1""
+)	match T as Foo
+    {
+255 :T , }
+,}")).
+Eval vm_compute in ("<<<M1936>>>" ++ check (runes_of_ascii "
+packet leftPad 
+@leftPad( '0')
+u32
+i64_ `100% of %d` ,repeat// 50% %s
+i8 chars
+    ,
+} MetaData
+    f32a
+{ // packet A { u8 x, }
+}")).
+Eval vm_compute in ("<<<M3520>>>" ++ check (runes_of_ascii "root packet int {
+    chars @lengthOf(Foo) `a\`,
+    repeat char[0123456789] BodyLength,
+    i8 T,
+    @rightPad()
+    u64 lengthOf,
+}")).
+Eval vm_compute in ("<<<M3410>>>" ++ check (runes_of_ascii "  packet
 
-    u32  crc
+    A
+{
+u8	a
+,	} packet
+    B{  u16 b, } root	packet 
+P
+	{ u8  K , match  K
+as M
+	{
+
+1
+
+    :A ,	1 :	B	,
+
+}
+    , }")).
+Eval vm_compute in ("<<<M3922>>>" ++ check (runes_of_ascii "packet leftPad {
+    @leftPad('0')
+    u32 i64_ `100% of %d`,
+    repeat i8 chars,
+}
+
+MetaData f32a {
+    // packet A { u8 x, }
+}")).
+Eval vm_compute in ("<<<M4101>>>" ++ check (runes_of_ascii "packet o {
+    @calculatedFrom(""packet"")
+    match As as float {
+        255 : metadata,
+        [0123456789] : i8i8,
+    },
+}")).
+Eval vm_compute in ("<<<M4377>>>" ++ check (runes_of_ascii "packet falsey {
+    repeat matchKey,
+}
+
+options {
+    As = 3;// " ++ [27880; 37322]%N ++ runes_of_ascii "
+}
+
+root packet x {
+    @tag(65535)
+    repeatCount a1,
+}")).
+Eval vm_compute in ("<<<M810>>>" ++ check (runes_of_ascii "packet	leftPad
+    { @tag( //	t
+10
+)
+    uint64 calculatedFrom
+``
+, body  , uint8 zchar ,i8i8 ,// trailing space 
+}
+")).
+Eval vm_compute in ("<<<M1873>>>" ++ check (runes_of_ascii "packet o {
+    roots `it's`
+// trailing space 
+//x
+, char[ 42
+    ]  A A, // " ++ [27880; 37322]%N ++ runes_of_ascii "
+f64
+repeatCount
+    `crlf
+line`
+,}")).
+Eval vm_compute in ("<<<M4419>>>" ++ check (runes_of_ascii "packet
+o {
+    roots
+    `it's`
+
+// trailing space 
+    //x
+
+  ,
+char[
+	42  ]A
+	,  // " ++ [27880; 37322]%N ++ runes_of_ascii "
+    f64 
+repeatCount
+,
+}")).
+Eval vm_compute in ("<<<M1850>>>" ++ check (runes_of_ascii "packet o {
+    roots int16
+// trailing space 
+//x
+, char[ 42
+    ]  A, // " ++ [27880; 37322]%N ++ runes_of_ascii "
+f64
+repeatCount
+    `crlf
+line`
+,}")).
+Eval vm_compute in ("<<<M1386>>>" ++ check (runes_of_ascii "
+options  {	int = ' ' ;T =""`tick`""
+; A =
+    //
+    255 ; matchKey = ' '
+    ; body =zchar[ 4294967296 ]
+;
+}
+")).
+Eval vm_compute in ("<<<M3867>>>" ++ check (runes_of_ascii "  packet
+
+    A 
+{
+    match k
+
+as
+n {[	// a
+    1 	 // b
+    , 	 // c
+
+	2 ] // d
+	  :
+
+    B  } 
+,  }
+")).
+Eval vm_compute in ("<<<M514>>>" ++ check (runes_of_ascii "MetaData u	{ float32	u8x `{ , }`, char[ 007]
+//x
+// 50% %s
+matchKey `tab	here`
+, char[
+7 ] float ,
+    }
+")).
+Eval vm_compute in ("<<<M36>>>" ++ check (runes_of_ascii "options { MetaDataX= 0 matchKey = '0' ; BodyLength = '\x00' ;packetx
+=char[]	;
+    charz =  '\x00' }
+")).
+Eval vm_compute in ("<<<M527>>>" ++ check (runes_of_ascii "options { }
+    packet roots { leftPad
+    falsey , char[
+1// c
+]
+u8x ,
+crc{charz
+asx, }
     , }
 ")).
-Eval vm_compute in ("<<<M95>>>" ++ check (runes_of_ascii "packet len {
-@tag( 255  ) repeat // packet A { u8 x, }
-zchar[ 007] roots
-, leftPad { //	t
-f32 calculatedFrom , f32
-    lengthOf , u32 calculatedFrom , } ,
-x//	t
-x
-    ,} MetaData u128 {
-A i8i8 `two words` ,}
-")).
-Eval vm_compute in ("<<<M185>>>" ++ check (runes_of_ascii "packet a1 {
-    char[ 0 ]
-len
-    `two words` , char[ 00 ]packetx ,} MetaData pack // a // b
-{	int64 a1 `crlf
-line` ,i64_  Foo,
-char[0123456789
-// " ++ [128512]%N ++ runes_of_ascii " emoji
-// " ++ [27880; 37322]%N ++ runes_of_ascii "
-] x
-    `tab	here` ,
-    }
+Eval vm_compute in ("<<<M3750>>>" ++ check (runes_of_ascii "MetaData stringy {
+    char[] A,
+    BodyLength stringy,
+    int lengthOf,
+    Pad crc `{ , }`,
+}")).
+Eval vm_compute in ("<<<M4317>>>" ++ check (runes_of_ascii "packet A {
+    match k as n {
+        [""a"", ""bb"", ""c c"", ""d"", ""e""] : B,
+        2 : C,
+    },
+}")).
+Eval vm_compute in ("<<<M3587>>>" ++ check (runes_of_ascii "
 
-")).
-Eval vm_compute in ("<<<M1490>>>" ++ check (runes_of_ascii "
-packet A{	u8	a ,
+  options  {	BodyLength
 
-    }
+=
+
+    true 
+	/// triple
+	  chars
+
+= ""it's""
+	;float='\x00' }
+")).
+Eval vm_compute in ("<<<M3902>>>" ++ check (runes_of_ascii "
 packet
+Foo { match
+body as	leftPad{
 
-B  {u16	b,
+    4294967296
+:  /// triple
 
-}root
+tag  ,
 
-packet P{ u8	K1
-    ,u8 K2 
-, 
-match
-    K1 as M1  {
-    1
-    :	A
-,
-
-    }	, match
-
-    K2
-as
-	M2
-
-    {1: B,	} , 
-} ")).
-Eval vm_compute in ("<<<M469>>>" ++ check (runes_of_ascii "packet'1'
-    // `tick` ""quote"" 'q'
-    crc
-// packet A { u8 x, }
-//	t
-{
-u32 a1 ,
-    // trailing space 
-    roots
-charz //
-`two words`,	}
-    MetaData int {
-} /// triple")).
-Eval vm_compute in ("<<<M691>>>" ++ check (runes_of_ascii "root packet len // trailing space 
-{
-// " ++ [27880; 37322]%N ++ runes_of_ascii "
-//	t
-char[ ]
-10 metadata	@lengthOf( o ) `crlf
-line`,
-    @rightPad
-( ' '
-) string
-    Header @calculatedFrom( ""a\\""
-    ), }
-")).
-Eval vm_compute in ("<<<M714>>>" ++ check (runes_of_ascii "root packet len // trailing space 
-{
-// " ++ [27880; 37322]%N ++ runes_of_ascii "
-//	t
-char[10
-] metadata	@lengthOf( o ) `crlf
-line`,
-    @rightPad
-( )
-' ' string
-    Header @calculatedFrom( ""a\\""
-    ), }
-")).
-Eval vm_compute in ("<<<M682>>>" ++ check (runes_of_ascii "] packet len // trailing space 
-{
-// " ++ [27880; 37322]%N ++ runes_of_ascii "
-//	t
-char[10
-] metadata	@lengthOf( o ) `crlf
-line`,
-    @rightPad
-( ' '
-) string
-    Header @calculatedFrom( ""a\\""
-    ), }
-")).
-Eval vm_compute in ("<<<M424>>>" ++ check (runes_of_ascii "packet
-    // `tick` ""quote"" 'q'
-    crc
-// packet A { u8 x, }
-//	t
-{
-u32 a1 ,
-    // trailing space 
-    roots
-charz //
-,	}
-    MetaData int {
-} /// triple")).
-Eval vm_compute in ("<<<M1767>>>" ++ check (runes_of_ascii "packet	A
-	{	match	k
-    as
-
-    n { 
-[""a"" , 
-""bb""
-    , ""c c""
-,
-    ""d""
-    ,
-""e""
-
-, ""f""
-	,
-""g"",
-
-    ""h"",
-    ""i""]
-: B
-	, 2	: C },
-
-    }
+    } , }
 
 ")).
-Eval vm_compute in ("<<<M297>>>" ++ check (runes_of_ascii "packet
-    // " ++ [27880; 37322]%N ++ runes_of_ascii "
-    Foo
-{ //x
-uint8x
-// " ++ [27880; 37322]%N ++ runes_of_ascii "
-// " ++ [128512]%N ++ runes_of_ascii " emoji
-,match
-len as options1
-// a // b
+Eval vm_compute in ("<<<M1434>>>" ++ check (runes_of_ascii "packet
+T
+{ match as repeatCount	calculatedFrom
+{ [65535 ]	: As	,
+} ,}
 // trailing space 
-{ 3 /// triple
-:i64_ , }
-, }
 ")).
-Eval vm_compute in ("<<<M298>>>" ++ check (runes_of_ascii "MetaData  metadata
-{	char[65535]	x ,
-    // c
-    char[]
-    u128, pack Z9_ , }
-    packet // " ++ [27880; 37322]%N ++ runes_of_ascii "
-a1{ repeat float repeatCount, }
+Eval vm_compute in ("<<<M1447>>>" ++ check (runes_of_ascii "packet
+T
+{ match repeatCount as	calculatedFrom
+ [65535 ]	: As	,
+} ,}
+// trailing space 
 ")).
-Eval vm_compute in ("<<<M572>>>" ++ check (runes_of_ascii "root packet tag { }  packet MetaDataX{char[007	]
+Eval vm_compute in ("<<<M3957>>>" ++ check (runes_of_ascii "packet
+A
+    {
+    match 
+k
+as
+
+    n { [ 1
+,
+    22
+
+,	""c c""
+	, 4 
+] :  B
+2 :	C } ,}")).
+Eval vm_compute in ("<<<M1781>>>" ++ check (runes_of_ascii "options{  lengthOf =//x
+i16;
+    BodyLength = 0 ; pack
+= false;
+    A A = char[ 3 ] }")).
+Eval vm_compute in ("<<<M2960>>>" ++ check (runes_of_ascii "packet A {
+  match k as n {
+    [1, 22, 007, 4, 5, 66, 7, 8, 9] : B,
+    2 : C
+  },
+}")).
+Eval vm_compute in ("<<<M2938>>>" ++ check (runes_of_ascii "packet A {
+  match k as n {
+    [1, ""bb"", 007, ""d"", 5, ""f"", 7] : B,
+    2 : C
+  },
+}")).
+Eval vm_compute in ("<<<M4441>>>" ++ check (runes_of_ascii "
+packet
+    u8x 
+{
+
+    }MetaData	crc
+    { char[
 // c
-/// triple
-asx  @calculatedFrom( ""a\""b""
-) `say ""hi""`// " ++ [27880; 37322]%N ++ runes_of_ascii "
-,  @tag(")).
-Eval vm_compute in ("<<<M1253>>>" ++ check (runes_of_ascii "root packet matchKey { zchar[ 3 ] pack @calculatedFrom( ""a	b"" ) `doc` , } options { // c
-} MetaData A { int8 msg_type , }")).
-Eval vm_compute in ("<<<M1990>>>" ++ check (runes_of_ascii "  packet  A
+		4294967296 ]
+Foo  , }
 
-    {
-	match k  as
-    n
-
-    {
-	[ 
-1 , 
-22	,
-""c c"" 
+")).
+Eval vm_compute in ("<<<M1804>>>" ++ check (runes_of_ascii "options{  lengthOf =//x
+i16;
+    BodyLength = 0 ; pack
+= false;
+    A = char[ 3")).
+Eval vm_compute in ("<<<M3248>>>" ++ check (runes_of_ascii "MetaData Foo
+// c
+{ zchar[ 0 ] matchKey , } options { lengthOf = i32 u = 00 ; }")).
+Eval vm_compute in ("<<<M3280>>>" ++ check (runes_of_ascii "MetaData Foo { zchar[ 0 ] matchKey , } options { lengthOf = i32 u = 00 ;
+// c
+}")).
+Eval vm_compute in ("<<<M2898>>>" ++ check (runes_of_ascii "packet A {
+  match k as n {
+    [""a"", ""bb"", ""c c"", ""d""] : B
+    2 : C
+  },
+}")).
+Eval vm_compute in ("<<<M1565>>>" ++ check (runes_of_ascii "// 50% %s
+packet	a1
+    { zchar[
+// a // b
+// 50% %s
+007]
+T `it's`
+    ,")).
+Eval vm_compute in ("<<<M1180>>>" ++ check (runes_of_ascii "packet // 50% %s
+Foo {
+@rightPad ( '\x00')repeat char stringy ,
+    }")).
+Eval vm_compute in ("<<<M3073>>>" ++ check (runes_of_ascii "packet A {
+    B b `%%d%!`,
+    B `%%d%!`,
+    repeat B bs `%%d%!`,
+}")).
+Eval vm_compute in ("<<<M70>>>" ++ check (runes_of_ascii "options { _x= 0123456789
+;	a1
+    // @lengthOf(
+    =
+'0'
+    ; }")).
+Eval vm_compute in ("<<<M939>>>" ++ check (runes_of_ascii "MetaData options1
+// `tick` ""quote"" 'q'
+//x
+{ i8 trueish
+    ,}
+")).
+Eval vm_compute in ("<<<M3536>>>" ++ check (runes_of_ascii "
+MetaData
+    float
+{int16
+	options1
 ,
 
-    4 , 5
-
-    ,
-""f""  ]
-: B 2 :C },	}
+int8
+u128
+`{ , }`,	} ")).
+Eval vm_compute in ("<<<M3304>>>" ++ check (runes_of_ascii "packet u8x { } MetaData crc {
+// c
+char[ 4294967296 ] Foo , }")).
+Eval vm_compute in ("<<<M1060>>>" ++ check (runes_of_ascii "packet pack{zchar[ //
+255] f32a @calculatedFrom(""a\\"" ) ,}
 ")).
-Eval vm_compute in ("<<<M423>>>" ++ check (runes_of_ascii "packet
-    // `tick` ""quote"" 'q'
-    crc
-// packet A { u8 x, }
-//	t
-{
-u32 a1 ,
-    // trailing space 
-    roots")).
-Eval vm_compute in ("<<<M24>>>" ++ check (runes_of_ascii "root packet
-    metadata// " ++ [128512]%N ++ runes_of_ascii " emoji
-{ } packet // c
-u
-{@leftPad (
-) repeat char[  4294967296 ] A
-`a\`  ,
+Eval vm_compute in ("<<<M633>>>" ++ check (runes_of_ascii "// `tick` ""quote"" 'q'
+options {calculatedFrom = false  ;}")).
+Eval vm_compute in ("<<<M204>>>" ++ check (runes_of_ascii "packet MetaDataX { int @calculatedFrom( ""`tick`"" ) ,
+}")).
+Eval vm_compute in ("<<<M427>>>" ++ check (runes_of_ascii "packet int { leftPad
+Foo`// not a comment`
+    ,  }")).
+Eval vm_compute in ("<<<M4110>>>" ++ check (runes_of_ascii "MetaData
+
+    Z9_
+	{
+BodyLength
+
+    _x ,
+} ")).
+Eval vm_compute in ("<<<M3963>>>" ++ check (runes_of_ascii "root packet u128 {
+    chars `doc`,
+    // c
+}")).
+Eval vm_compute in ("<<<M3735>>>" ++ check (runes_of_ascii "root packet A {
+    u8 x `tab
+        	x`,
+}")).
+Eval vm_compute in ("<<<M3809>>>" ++ check (runes_of_ascii "
+
+  packet
+len
+    {
+repeat
+    int  , }
+")).
+Eval vm_compute in ("<<<M3220>>>" ++ check (runes_of_ascii "
+// c
+root packet u128 { chars `doc` , }")).
+Eval vm_compute in ("<<<M3234>>>" ++ check (runes_of_ascii "root packet u128 { chars `doc` ,
+// c
+}")).
+Eval vm_compute in ("<<<M2390>>>" ++ check (runes_of_ascii "MetaData
+Foo \ {Header //
+pack ,	} 	 ")).
+Eval vm_compute in ("<<<M2624>>>" ++ check (runes_of_ascii "packet A { match k as n { 1 : 2 }, }")).
+Eval vm_compute in ("<<<M2863>>>" ++ check (runes_of_ascii "F" ++ [65533; 4; 65533; 65533]%N ++ runes_of_ascii "G" ++ [65533; 65533; 65533]%N ++ runes_of_ascii "_e" ++ [65533; 65533; 65533; 65533; 65533]%N ++ runes_of_ascii "PM" ++ [65533; 65533]%N ++ runes_of_ascii "	*" ++ [65533; 497; 65533; 31]%N ++ runes_of_ascii "^" ++ [12]%N ++ runes_of_ascii "Vi:" ++ [1301]%N ++ runes_of_ascii "I:" ++ [65533]%N)).
+Eval vm_compute in ("<<<M2247>>>" ++ check (runes_of_ascii "options
+    {
+x_y_z// " ++ [27880; 37322]%N ++ runes_of_ascii "
+= 10 ; }")).
+Eval vm_compute in ("<<<M3159>>>" ++ check (runes_of_ascii "packet A {
+ u8 x `d 	`, // c 	
+}")).
+Eval vm_compute in ("<<<M959>>>" ++ check (runes_of_ascii "root packet
+calculatedFrom{ }
+")).
+Eval vm_compute in ("<<<M2237>>>" ++ check (runes_of_ascii "options
+    {
+x_y_z// " ++ [27880; 37322]%N ++ runes_of_ascii "
+= 10")).
+Eval vm_compute in ("<<<M3342>>>" ++ check (runes_of_ascii "options { // c
+u8x = false }")).
+Eval vm_compute in ("<<<M4123>>>" ++ check (runes_of_ascii "options {
+    u8x = false
+}")).
+Eval vm_compute in ("<<<M2629>>>" ++ check (runes_of_ascii "packet A { @tag() u8 x, }")).
+Eval vm_compute in ("<<<M1297>>>" ++ check (runes_of_ascii "
+ // packet A { u8 x, }")).
+Eval vm_compute in ("<<<M334>>>" ++ check (runes_of_ascii "MetaData msg_type { }")).
+Eval vm_compute in ("<<<M2652>>>" ++ check (runes_of_ascii "MetaData M { u8 x, }")).
+Eval vm_compute in ("<<<M3177>>>" ++ check (runes_of_ascii "packet A {
 }
-")).
-Eval vm_compute in ("<<<M1922>>>" ++ check (runes_of_ascii "MetaData float {
-    float64 charz `
-        `,
+// c x")).
+Eval vm_compute in ("<<<M3127>>>" ++ check (runes_of_ascii "packet A {
 }
+// c" ++ [8232]%N)).
+Eval vm_compute in ("<<<M2576>>>" ++ check (runes_of_ascii "packet A { u8 x }")).
+Eval vm_compute in ("<<<M654>>>" ++ check (runes_of_ascii "MetaData A { }
 
-root packet chars {
-    @rightPad('0')
-    Foo,
-}// c")).
-Eval vm_compute in ("<<<M1514>>>" ++ check (runes_of_ascii "  packet
-    FooBar
-{
-u8
-
-a
-, }	packet
-
-foo_bar{
-u16  b	,}
-root
-packet R
-
-{
-	FooBar 
-, foo_bar,} ")).
-Eval vm_compute in ("<<<M878>>>" ++ check (runes_of_ascii "packet A {
-  match k as n {
-    [1, ""bb"", 007, ""d"", 5, ""f"", 7, ""h"", 9, ""j""] : B
-    2 : C
-  },
-}")).
-Eval vm_compute in ("<<<M76>>>" ++ check (runes_of_ascii "MetaData
-chars {
-uint32 chars	`doc` , int64 float, // trailing space 
-u8
-pack `
-` ,
-    }
 ")).
-Eval vm_compute in ("<<<M1180>>>" ++ check (runes_of_ascii "MetaData // c
-float { float64 charz `
-` , } root packet chars { @rightPad ( '0' ) Foo , }")).
-Eval vm_compute in ("<<<M1212>>>" ++ check (runes_of_ascii "MetaData float { float64 charz `
-` , } root packet chars { @rightPad ( '0' ) Foo // c
-, }")).
-Eval vm_compute in ("<<<M1423>>>" ++ check (runes_of_ascii "packet chars { } packet MetaDataX { @tag( 42 ) i16 string_ , repeat
-// c
-x `say ""hi""` , }")).
-Eval vm_compute in ("<<<M824>>>" ++ check (runes_of_ascii "packet A {
-  match k as n {
-    [""a"", ""bb"", ""c c"", ""d"", ""e"", ""f""] : B
-    2 : C
-  },
-}")).
-Eval vm_compute in ("<<<M1153>>>" ++ check (runes_of_ascii "packet metadata { Logon { A `" ++ [28040; 24687; 31867; 22411]%N ++ runes_of_ascii "` , tag o , } , zchar len
-// c
-`// not a comment` , }")).
-Eval vm_compute in ("<<<M1358>>>" ++ check (runes_of_ascii "packet o { repeat Logon uint8x , } options { // c
-asx = zchar[ 3 ] stringy = '\x00' }")).
-Eval vm_compute in ("<<<M1807>>>" ++ check (runes_of_ascii "packet A {
-    B b `tab
-    	x`,
-    B `tab
-    	x`,
-    repeat B bs `tab
-    	x`,
-}")).
-Eval vm_compute in ("<<<M1319>>>" ++ check (runes_of_ascii "MetaData body { i64 pack `it's` , } // c
-packet stringy { int16 calculatedFrom , }")).
-Eval vm_compute in ("<<<M826>>>" ++ check (runes_of_ascii "packet A {
-  match k as n {
-    [1, ""bb"", 007, ""d"", 5, ""f""] : B
-    2 : C
-  },
-}")).
-Eval vm_compute in ("<<<M822>>>" ++ check (runes_of_ascii "packet A {
-  match k as n {
-    [1, 22, 007, 4, 5, 66] : B
-    2 : C
-  },
-}")).
-Eval vm_compute in ("<<<M2075>>>" ++ check (runes_of_ascii "  packet
-    x
-{
-	@rightPad  ( ) repeat	roots Logon 	 // c
-`doc`
-
-, }
+Eval vm_compute in ("<<<M4019>>>" ++ check (runes_of_ascii "  // a
+	// b
 ")).
-Eval vm_compute in ("<<<M919>>>" ++ check (runes_of_ascii "packet A {
-    B b `a
-b`,
-    B `a
-b`,
-    repeat B bs `a
-b`,
+Eval vm_compute in ("<<<M928>>>" ++ check (runes_of_ascii "options
+{
 }")).
-Eval vm_compute in ("<<<M773>>>" ++ check (runes_of_ascii "packet A {
-  match k as n {
-    [1, 22] : B,
-    2 : C
-  },
-}")).
-Eval vm_compute in ("<<<M1279>>>" ++ check (runes_of_ascii "packet x
-// c
-{ @rightPad ( ) repeat roots Logon `doc` , }")).
-Eval vm_compute in ("<<<M300>>>" ++ check (runes_of_ascii "
-MetaData trueish // c
-{  string	trueish `it's`	,
-}")).
-Eval vm_compute in ("<<<M1068>>>" ++ check (runes_of_ascii "packet A {} packet B {} MetaData M {} options {}")).
-Eval vm_compute in ("<<<M527>>>" ++ check (runes_of_ascii "root packet tag { }  packet MetaDataX{char[")).
-Eval vm_compute in ("<<<M1107>>>" ++ check (runes_of_ascii "root packet u128 {
-// c
-chars `it's` , }")).
-Eval vm_compute in ("<<<M930>>>" ++ check (runes_of_ascii "packet A {
-    u8 x `a
-    b
-  c`,
-}")).
-Eval vm_compute in ("<<<M1606>>>" ++ check (runes_of_ascii "packet A {
-    u8 x `d" ++ [11]%N ++ runes_of_ascii "`,// c" ++ [11]%N ++ runes_of_ascii "
-}")).
-Eval vm_compute in ("<<<M1981>>>" ++ check (runes_of_ascii "packet A {
-    u8 x `
-    `,
-}")).
-Eval vm_compute in ("<<<M108>>>" ++ check (runes_of_ascii "packet  o {  } // " ++ [128512]%N ++ runes_of_ascii " emoji")).
-Eval vm_compute in ("<<<M1382>>>" ++ check (runes_of_ascii "
-// c
-MetaData o { }")).
-Eval vm_compute in ("<<<M992>>>" ++ check (runes_of_ascii "// c" ++ [5760]%N ++ runes_of_ascii "
-packet A {
-}")).
-Eval vm_compute in ("<<<M974>>>" ++ check (runes_of_ascii "packet A {
-}// c" ++ [12288]%N)).
-Eval vm_compute in ("<<<M765>>>" ++ check (runes_of_ascii "T5 y!?""5s|e^*")).
-Eval vm_compute in ("<<<M980>>>" ++ check (runes_of_ascii "// c" ++ [160]%N)).
-Eval vm_compute in ("<<<M729>>>" ++ check ([65279]%N)).
+Eval vm_compute in ("<<<M2694>>>" ++ check (runes_of_ascii "// a
+// b
+")).
+Eval vm_compute in ("<<<M4077>>>" ++ check (runes_of_ascii "//x
+// c")).
+Eval vm_compute in ("<<<M2480>>>" ++ check (runes_of_ascii "'\x00'")).
+Eval vm_compute in ("<<<M2683>>>" ++ check (runes_of_ascii "u8 x,")).
+Eval vm_compute in ("<<<M2498>>>" ++ check (runes_of_ascii "@tag")).
+Eval vm_compute in ("<<<M2509>>>" ++ check (runes_of_ascii "//")).
+Eval vm_compute in ("<<<M2514>>>" ++ check (runes_of_ascii """""")).
+Eval vm_compute in ("<<<M2696>>>" ++ check ([0]%N)).
